@@ -566,7 +566,7 @@ Section FoldStmt.
       { destruct (is_call "range" it) as [args|] eqn:Ci.
         - apply is_call_some in Ci. subst it. cbn [fold_exp] in Ha. inv_bind Ha.
           change (existsb (String.eqb "range") builtin_funcs) with false in Ha. inversion Ha; subst.
-          destruct (fold_args_sound _ _ _ Gi Ha2) as (Ea & Ga). split.
+          destruct (fold_args_sound _ _ _ Gi Ha1) as (Ea & Ga). split.
           + intro rho. rewrite !iter_vals_range, Ea. reflexivity.
           + rewrite is_call_call. simpl. exact Ga.
         - assert (a = it).
@@ -600,3 +600,1654 @@ Section FoldStmt.
     apply fold_flat_sound. apply Forall_forall. intros s _. apply fold_stmt_sound.
   Qed.
 End FoldStmt.
+
+(* ------------------------------------------------------------------ *)
+(* backward simulation: the framework shared by the two rewriting passes *)
+(* ------------------------------------------------------------------ *)
+(* the two environments agree on the names P selects (the rewritten program has
+   more names: its temporaries) *)
+Definition Ragree (P : string -> bool) (rho rho' : env) : Prop :=
+  forall x, P x = true -> rho x = rho' x.
+Definition Rout (P : string -> bool) (o o' : env * option val) : Prop :=
+  Ragree P (fst o) (fst o') /\ snd o = snd o'.
+(* whenever the rewritten code [g] has an outcome, the original [f] has a related one *)
+Definition bsim (P : string -> bool) (f g : env -> outcome) : Prop :=
+  forall rho rho' o', Ragree P rho rho' -> g rho' = Some o' ->
+                      exists o, f rho = Some o /\ Rout P o o'.
+Definition seq (f g : env -> outcome) : env -> outcome :=
+  fun rho => match f rho with Some (r, None) => g r | o => o end.
+
+Lemma Ragree_upd P rho rho' x v : Ragree P rho rho' -> Ragree P (upd rho x v) (upd rho' x v).
+Proof. intros H y Py. unfold upd. destruct (String.eqb x y); auto. Qed.
+
+Lemma Ragree_upd_r P rho rho' x v : P x = false -> Ragree P rho rho' -> Ragree P rho (upd rho' x v).
+Proof.
+  intros Px H y Py. unfold upd. destruct (String.eqb x y) eqn:E; auto.
+  apply String.eqb_eq in E. congruence.
+Qed.
+
+Lemma Ragree_mono (P Q : string -> bool) rho rho' :
+  (forall x, Q x = true -> P x = true) -> Ragree P rho rho' -> Ragree Q rho rho'.
+Proof. intros M H x Qx. auto. Qed.
+
+Lemma bsim_seq P f1 f2 g1 g2 : bsim P f1 g1 -> bsim P f2 g2 -> bsim P (seq f1 f2) (seq g1 g2).
+Proof.
+  intros B1 B2 rho rho' o' R H. unfold seq in *.
+  destruct (g1 rho') as [[r1' [v|]]|] eqn:E1; try discriminate.
+  - inversion H; subst. destruct (B1 _ _ _ R E1) as ([r1 w] & F1 & R1 & Ev). simpl in *. subst w.
+    rewrite F1. exists (r1, Some v). split; auto. split; auto.
+  - destruct (B1 _ _ _ R E1) as ([r1 w] & F1 & R1 & Ev). simpl in *. subst w. rewrite F1.
+    apply (B2 _ _ _ R1 H).
+Qed.
+
+Lemma bsim_loop P body body' x vs : bsim P body body' -> bsim P (loop_with body x vs) (loop_with body' x vs).
+Proof.
+  intro B. induction vs as [|v r IH]; intros rho rho' o' R H; simpl in *.
+  - inversion H; subst. exists (rho, None). split; auto. split; auto.
+  - assert (S : bsim P (seq (fun e => body (upd e x v)) (loop_with body x r))
+                       (seq (fun e => body' (upd e x v)) (loop_with body' x r))).
+    { apply bsim_seq; auto. intros e e' o2 Re He. apply (B _ _ _ (Ragree_upd _ _ _ x v Re) He). }
+    apply (S _ _ _ R H).
+Qed.
+
+Lemma bsim_nil P : bsim P (fun rho => Some (rho, None)) (fun rho => Some (rho, None)).
+Proof. intros rho rho' o' R H. inversion H; subst. exists (rho, None). split; auto. split; auto. Qed.
+
+(* ------------------------------------------------------------------ *)
+(* expressions depend only on the names the guard allows               *)
+(* ------------------------------------------------------------------ *)
+Section Agree.
+  Variable ext : string -> list val -> option val.
+  Notation eval := (eval ext).
+  Notation iter_vals := (iter_vals ext).
+
+  Lemma eval_agree okn lv e rho rho' :
+    gexp okn lv e = true -> Ragree okn rho rho' -> eval rho e = eval rho' e.
+  Proof.
+    intros G R. revert G.
+    induction e as [x|c|e IHe|op l H0|op e1 e2 IHe1 IHe2|op e IHe|op e1 e2 IHe1 IHe2|e1 e2 e3 IHe1 IHe2 IHe3|l H0|l H0|e1 e2 IHe1 IHe2|f args H0]
+      using exp_ind2; intro G; cbn [gexp] in G; cbn [M_A2A.eval].
+    - auto.
+    - auto.
+    - discriminate.
+    - apply boolop_with_ext. induction H0; constructor; simpl in G; apply andb_true_iff in G; destruct G; auto.
+    - apply andb_true_iff in G; destruct G as [G Gb]. apply andb_true_iff in G; destruct G as [_ Ga].
+      now rewrite IHe1, IHe2.
+    - now rewrite IHe.
+    - apply andb_true_iff in G; destruct G as [Ga Gb]. now rewrite IHe1, IHe2.
+    - apply andb_true_iff in G; destruct G as [G Gf]. apply andb_true_iff in G; destruct G as [Gc Gt].
+      now rewrite IHe1, IHe2, IHe3.
+    - f_equal. apply all_some_map_ext.
+      induction H0; constructor; simpl in G; apply andb_true_iff in G; destruct G; auto.
+    - f_equal. apply all_some_map_ext.
+      induction H0; constructor; simpl in G; apply andb_true_iff in G; destruct G; auto.
+    - apply andb_true_iff in G; destruct G as [Gv Gs]. rewrite IHe1 by auto.
+      assert (Es : eval rho e2 = eval rho' e2).
+      { destruct e2; try discriminate; auto. apply andb_true_iff in Gs. destruct Gs. simpl. auto. }
+      now rewrite Es.
+    - apply andb_true_iff in G; destruct G as [_ Ga].
+      replace (all_some (map (eval rho') args)) with (all_some (map (eval rho) args)); auto.
+      apply all_some_map_ext.
+      induction H0; constructor; simpl in Ga; apply andb_true_iff in Ga; destruct Ga; auto.
+  Qed.
+
+  Lemma args_agree okn lv args rho rho' :
+    forallb (gexp okn lv) args = true -> Ragree okn rho rho' ->
+    all_some (map (eval rho) args) = all_some (map (eval rho') args).
+  Proof.
+    intros G R. apply all_some_map_ext. induction args; constructor; simpl in G;
+      apply andb_true_iff in G; destruct G; eauto using eval_agree.
+  Qed.
+
+  (* the iterator of a guarded loop *)
+  Lemma iter_agree okn lv it rho rho' :
+    (match is_call "range" it with
+     | Some args => forallb (gexp okn lv) args
+     | None => const_iter it end) = true ->
+    Ragree okn rho rho' -> iter_vals rho it = iter_vals rho' it.
+  Proof.
+    intros G R. destruct (is_call "range" it) as [args|] eqn:Ci.
+    - apply is_call_some in Ci. subst. rewrite !iter_vals_range. now rewrite (args_agree _ _ _ _ _ G R).
+    - rewrite !iter_vals_other by auto. now rewrite (eval_agree okn lv _ _ _ (const_iter_gexp _ _ _ G) R).
+  Qed.
+End Agree.
+
+(* the guard is monotone in the set of allowed names *)
+Lemma gexp_mono (P Q : string -> bool) lv e :
+  (forall x, P x = true -> Q x = true) -> gexp P lv e = true -> gexp Q lv e = true.
+Proof.
+  intro M.
+  induction e as [x|c|e IHe|op l H0|op e1 e2 IHe1 IHe2|op e IHe|op e1 e2 IHe1 IHe2|e1 e2 e3 IHe1 IHe2 IHe3|l H0|l H0|e1 e2 IHe1 IHe2|f args H0]
+    using exp_ind2; cbn [gexp]; intro G; auto.
+  - induction H0; simpl in *; auto. apply andb_true_iff in G; destruct G. rewrite H, IHForall; auto.
+  - apply andb_true_iff in G; destruct G as [G Gb]. apply andb_true_iff in G; destruct G as [Go Ga].
+    now rewrite Go, IHe1, IHe2.
+  - apply andb_true_iff in G; destruct G as [Ga Gb]. now rewrite IHe1, IHe2.
+  - apply andb_true_iff in G; destruct G as [G Gf]. apply andb_true_iff in G; destruct G as [Gc Gt].
+    now rewrite IHe1, IHe2, IHe3.
+  - induction H0; simpl in *; auto. apply andb_true_iff in G; destruct G. rewrite H, IHForall; auto.
+  - induction H0; simpl in *; auto. apply andb_true_iff in G; destruct G. rewrite H, IHForall; auto.
+  - apply andb_true_iff in G; destruct G as [Gv Gs]. rewrite IHe1 by auto. simpl.
+    destruct e2; auto. apply andb_true_iff in Gs; destruct Gs as [Gx Gl]. now rewrite (M _ Gx), Gl.
+  - apply andb_true_iff in G; destruct G as [Gf Ga]. rewrite Gf. simpl.
+    induction H0; simpl in *; auto. apply andb_true_iff in Ga; destruct Ga. rewrite H, IHForall; auto.
+Qed.
+
+Lemma gargs_mono (P Q : string -> bool) lv l :
+  (forall x, P x = true -> Q x = true) -> forallb (gexp P lv) l = true -> forallb (gexp Q lv) l = true.
+Proof.
+  intro M. induction l; simpl; auto. intro G. apply andb_true_iff in G; destruct G.
+  rewrite (gexp_mono P Q lv a M), IHl; auto.
+Qed.
+
+Lemma gstmt_mono (P Q : string -> bool) s :
+  (forall x, P x = true -> Q x = true) -> forall lv, gstmt P lv s = true -> gstmt Q lv s = true.
+Proof.
+  intro M.
+  induction s as [t e|x op e|c b o Hb Ho|x it b Hb|e|e] using stmt_ind2; intros lv G; cbn [gstmt] in *.
+  - destruct t as [x|tl].
+    + apply andb_true_iff in G; destruct G as [Gx Ge]. now rewrite (M _ Gx), (gexp_mono P Q lv e M Ge).
+    + apply andb_true_iff in G; destruct G as [G Gl]. apply andb_true_iff in G; destruct G as [Gn Ge].
+      rewrite (gexp_mono P Q lv e M Ge), Gl.
+      assert (forallb (gname Q) tl = true) as ->; auto.
+      clear - M Gn. induction tl; simpl in *; auto. apply andb_true_iff in Gn; destruct Gn.
+      rewrite IHtl by auto. destruct a; simpl in *; try discriminate. now rewrite (M _ H).
+  - apply andb_true_iff in G; destruct G as [G Ge]. apply andb_true_iff in G; destruct G as [Gx Gop].
+    now rewrite (M _ Gx), Gop, (gexp_mono P Q lv e M Ge).
+  - apply andb_true_iff in G; destruct G as [G Go]. apply andb_true_iff in G; destruct G as [Gc Gb].
+    rewrite (gexp_mono P Q lv c M Gc). simpl.
+    assert (forallb (gstmt Q lv) b = true) as ->.
+    { clear - Hb Gb. induction Hb; simpl in *; auto. apply andb_true_iff in Gb; destruct Gb. rewrite H, IHHb; auto. }
+    clear - Ho Go. induction Ho; simpl in *; auto. apply andb_true_iff in Go; destruct Go. rewrite H, IHHo; auto.
+  - apply andb_true_iff in G; destruct G as [G Gb]. apply andb_true_iff in G; destruct G as [Gx Gi].
+    rewrite (M _ Gx). simpl.
+    assert ((match is_call "range" it with
+             | Some args => forallb (gexp Q lv) args
+             | None => const_iter it end) = true) as ->.
+    { destruct (is_call "range" it); auto. apply (gargs_mono P Q); auto. }
+    simpl. clear - Hb Gb. induction Hb; simpl in *; auto.
+    apply andb_true_iff in Gb; destruct Gb. rewrite H, IHHb; auto.
+  - apply (gexp_mono P Q); auto.
+  - destruct e; auto. apply (gexp_mono P Q); auto.
+Qed.
+
+Lemma glist_mono (P Q : string -> bool) lv l :
+  (forall x, P x = true -> Q x = true) -> forallb (gstmt P lv) l = true -> forallb (gstmt Q lv) l = true.
+Proof.
+  intro M. induction l; simpl; auto. intro G. apply andb_true_iff in G; destruct G.
+  rewrite (gstmt_mono P Q a M lv), IHl; auto.
+Qed.
+
+(* names: a user name is visible *)
+Lemma prefix_cons c p a s : prefix (String c p) (String a s) = if ascii_dec c a then prefix p s else false.
+Proof. reflexivity. Qed.
+
+Lemma user_visible x : user_name x = true -> visible x = true.
+Proof.
+  unfold user_name, visible, dunder, is_iftarg, iftarg_prefix.
+  destruct x as [|a s]; [reflexivity|].
+  rewrite !prefix_cons. destruct (ascii_dec "_" a); cbn [negb andb]; auto. destruct s; simpl; discriminate.
+Qed.
+
+(* ------------------------------------------------------------------ *)
+(* statements read only the names the guard allows                     *)
+(* ------------------------------------------------------------------ *)
+Section SimStmt.
+  Variable ext : string -> list val -> option val.
+  Notation eval := (eval ext).
+  Notation exec := (exec ext).
+  Notation exec_list := (exec_list ext).
+  Notation iter_vals := (iter_vals ext).
+
+  Lemma bsim_ext P f f' g g' :
+    (forall rho, f rho = f' rho) -> (forall rho, g rho = g' rho) -> bsim P f g -> bsim P f' g'.
+  Proof. intros Ef Eg B rho rho' o' R H. rewrite <- Eg in H. rewrite <- Ef. eauto. Qed.
+
+  Lemma bsim_assign P lv x e e' :
+    gexp P lv e = true -> (forall rho, eval rho e' = eval rho e) ->
+    bsim P (exec (SAssign (TName x) e)) (exec (SAssign (TName x) e')).
+  Proof.
+    intros G E rho rho' o' R H. simpl in *. rewrite E in H.
+    rewrite (eval_agree ext P lv e rho rho' G R).
+    destruct (eval rho' e) as [v|]; try discriminate. inversion H; subst.
+    exists (upd rho x v, None). split; auto. split; simpl; auto using Ragree_upd.
+  Qed.
+
+  Lemma bsim_aug P lv x op e e' :
+    P x = true -> gexp P lv e = true -> (forall rho, eval rho e' = eval rho e) ->
+    bsim P (exec (SAugAssign x op e)) (exec (SAugAssign x op e')).
+  Proof.
+    intros Px G E rho rho' o' R H. simpl in *. rewrite E in H.
+    rewrite (eval_agree ext P lv e rho rho' G R), (R x Px).
+    destruct (rho' x) as [a|]; try discriminate. destruct (eval rho' e) as [v|]; try discriminate.
+    destruct (binop_val op a v) as [w|]; try discriminate. simpl in *. inversion H; subst.
+    exists (upd rho x w, None). split; auto. split; simpl; auto using Ragree_upd.
+  Qed.
+
+  Lemma bsim_return P lv e e' :
+    gexp P lv e = true -> (forall rho, eval rho e' = eval rho e) ->
+    bsim P (exec (SReturn e)) (exec (SReturn e')).
+  Proof.
+    intros G E rho rho' o' R H. simpl in *. rewrite E in H.
+    rewrite (eval_agree ext P lv e rho rho' G R).
+    destruct (eval rho' e) as [v|]; try discriminate. inversion H; subst.
+    exists (rho, Some v). split; auto. split; simpl; auto.
+  Qed.
+
+  Lemma bsim_expr P lv e e' :
+    gexp P lv e = true -> gexp P lv e' = true -> (forall rho, eval rho e' = eval rho e) ->
+    bsim P (exec (SExpr (Some e))) (exec (SExpr (Some e'))).
+  Proof.
+    intros G G' E rho rho' o' R H. simpl in *.
+    rewrite (gexp_not_call _ _ _ "print" G') in H by reflexivity.
+    rewrite (gexp_not_call _ _ _ "print" G) by reflexivity. rewrite E in H.
+    rewrite (eval_agree ext P lv e rho rho' G R).
+    destruct (eval rho' e) as [v|]; try discriminate. inversion H; subst.
+    exists (rho, None). split; auto. split; simpl; auto.
+  Qed.
+
+  Lemma bsim_if P lv c c' fb fo gb go :
+    gexp P lv c = true -> (forall rho, eval rho c' = eval rho c) ->
+    bsim P fb gb -> bsim P fo go ->
+    bsim P (fun rho => match eval rho c with
+                       | Some v => if truthy v then fb rho else fo rho
+                       | None => None end)
+           (fun rho => match eval rho c' with
+                       | Some v => if truthy v then gb rho else go rho
+                       | None => None end).
+  Proof.
+    intros G E Bb Bo rho rho' o' R H. rewrite E in H.
+    rewrite (eval_agree ext P lv c rho rho' G R).
+    destruct (eval rho' c) as [v|]; try discriminate. destruct (truthy v); eauto.
+  Qed.
+
+  Lemma bsim_for P lv x it fb gb :
+    (match is_call "range" it with
+     | Some args => forallb (gexp P lv) args
+     | None => const_iter it end) = true ->
+    bsim P fb gb ->
+    bsim P (fun rho => match iter_vals rho it with Some vs => loop_with fb x vs rho | None => None end)
+           (fun rho => match iter_vals rho it with Some vs => loop_with gb x vs rho | None => None end).
+  Proof.
+    intros G B rho rho' o' R H.
+    rewrite (iter_agree ext P lv it rho rho' G R).
+    destruct (iter_vals rho' it) as [vs|]; try discriminate.
+    apply (bsim_loop P fb gb x vs B _ _ _ R H).
+  Qed.
+
+  Lemma bsim_list_cons P s r l1 l2 :
+    bsim P (exec s) (exec_list l1) -> bsim P (exec_list r) (exec_list l2) ->
+    bsim P (exec_list (s :: r)) (exec_list (l1 ++ l2)).
+  Proof.
+    intros B1 B2. eapply bsim_ext; [| |apply (bsim_seq P _ _ _ _ B1 B2)].
+    - intro rho. unfold seq. now rewrite exec_list_cons.
+    - intro rho. unfold seq. now rewrite exec_list_app.
+  Qed.
+End SimStmt.
+
+(* ------------------------------------------------------------------ *)
+(* ReplaceMultiTargetAssign                                            *)
+(* ------------------------------------------------------------------ *)
+Section Multi.
+  Variable ext : string -> list val -> option val.
+  Notation eval := (eval ext).
+  Notation exec := (exec ext).
+  Notation exec_list := (exec_list ext).
+  Notation iter_vals := (iter_vals ext).
+
+  Lemma names_of_ok tl names : mapM name_of tl = Ok names -> tl = map EName names.
+  Proof.
+    revert names; induction tl as [|a r IH]; simpl; intros names H.
+    - inversion H; auto.
+    - inv_bind H. inv_bind H. inversion H; subst. destruct a; simpl in Ha; try discriminate.
+      inversion Ha; subst. simpl. f_equal. auto.
+  Qed.
+
+  Lemma index_list_mid {A} (done rest : list A) v :
+    index_list (done ++ v :: rest) (Z.of_nat (List.length done)) = Some v.
+  Proof.
+    unfold index_list. rewrite app_length. simpl.
+    assert ((0 <=? Z.of_nat (List.length done))%Z = true) as -> by (apply Z.leb_le; lia).
+    assert ((Z.of_nat (List.length done) <? Z.of_nat (List.length done + S (List.length rest)))%Z = true) as ->
+      by (apply Z.ltb_lt; lia).
+    simpl. rewrite Nat2Z.id. rewrite nth_error_app2 by lia. now rewrite Nat.sub_diag.
+  Qed.
+
+  Lemma temptup_not_user : user_name temptup = false.
+  Proof. reflexivity. Qed.
+
+  Lemma user_neq_temptup x : user_name x = true -> String.eqb x temptup = false.
+  Proof.
+    intro U. destruct (String.eqb x temptup) eqn:E; auto. apply String.eqb_eq in E. subst.
+    rewrite temptup_not_user in U. discriminate.
+  Qed.
+
+  (* x0 = _temptup[k]; x1 = _temptup[k+1]; ... against the tuple assignment *)
+  Lemma singles_sound names : forall done rest rho rho' o',
+    forallb user_name names = true -> List.length names = List.length rest ->
+    rho' temptup = Some (VTup (done ++ rest)) -> Ragree user_name rho rho' ->
+    exec_list (singles (EName temptup) names (Z.of_nat (List.length done))) rho' = Some o' ->
+    exists r, assign_names (map EName names) rest rho = Some r /\ Rout user_name (r, None) o'.
+  Proof.
+    induction names as [|x names IH]; intros done rest rho rho' o' U L T R H.
+    - destruct rest; try discriminate. simpl in *. inversion H; subst. exists rho. split; auto. split; auto.
+    - destruct rest as [|v rest]; try discriminate. simpl in U. apply andb_true_iff in U; destruct U as [Ux Un].
+      cbn [singles] in H. rewrite exec_list_cons in H. cbn [M_A2A.exec M_A2A.eval val_of_cst] in H.
+      rewrite T in H. unfold subscript_val in H. cbn [as_int] in H. rewrite index_list_mid in H.
+      simpl. apply (IH (done ++ [v]) rest (upd rho x v) (upd rho' x v) o'); auto.
+      + unfold upd. rewrite (user_neq_temptup _ Ux). now rewrite <- app_assoc.
+      + apply Ragree_upd; auto.
+      + rewrite app_length. simpl. replace (Z.of_nat (List.length done + 1)) with (Z.of_nat (List.length done) + 1)%Z by lia.
+        exact H.
+  Qed.
+
+  Lemma singles_guard lv names k :
+    forallb user_name names = true ->
+    forallb (gstmt visible lv) (singles (EName temptup) names k) = true.
+  Proof.
+    revert k; induction names as [|x r IH]; intros k U; simpl; auto.
+    simpl in U. apply andb_true_iff in U; destruct U as [Ux Ur].
+    rewrite (user_visible _ Ux), IH by auto. reflexivity.
+  Qed.
+
+  Lemma gnames_user tl names : tl = map EName names -> forallb (gname user_name) tl = true -> forallb user_name names = true.
+  Proof. intros ->. induction names; simpl; auto. intro H. apply andb_true_iff in H; destruct H. rewrite H, IHnames; auto. Qed.
+
+  Definition multi_spec (s : stmt) : Prop :=
+    forall lv l, gstmt user_name lv s = true -> multi_stmt s = Ok l ->
+                 forallb (gstmt visible lv) l = true /\ bsim user_name (exec s) (exec_list l).
+
+  Lemma multi_flat_sound b : Forall multi_spec b ->
+    forall lv b', forallb (gstmt user_name lv) b = true -> flat_mapM multi_stmt b = Ok b' ->
+    forallb (gstmt visible lv) b' = true /\ bsim user_name (exec_list b) (exec_list b').
+  Proof.
+    induction 1 as [|s r Hs Hr IH]; intros lv b' G H; simpl in H.
+    - inversion H; subst. split; auto. apply bsim_nil.
+    - simpl in G. apply andb_true_iff in G; destruct G as [Gs Gr].
+      inv_bind H. inv_bind H. inversion H; subst.
+      destruct (Hs _ _ Gs Ha) as (G1 & B1). destruct (IH _ _ Gr Ha0) as (G2 & B2).
+      split.
+      + rewrite forallb_app, G1, G2. reflexivity.
+      + apply bsim_list_cons; auto.
+  Qed.
+
+  Lemma bsim_single P f s : bsim P f (exec s) -> bsim P f (exec_list [s]).
+  Proof. apply bsim_ext; auto. intro rho. now rewrite exec_list_single. Qed.
+
+  Lemma multi_stmt_sound s : multi_spec s.
+  Proof.
+    induction s as [t e|x op e|c b o Hb Ho|x it b Hb|e|e] using stmt_ind2; intros lv l G H;
+      cbn [gstmt multi_stmt] in G, H.
+    - destruct t as [x|tl].
+      + inversion H; subst. split.
+        * cbn [forallb]. rewrite andb_true_r. apply (gstmt_mono user_name visible (SAssign (TName x) e) user_visible lv). exact G.
+        * apply andb_true_iff in G; destruct G as [Gx Ge].
+          apply bsim_single. apply (bsim_assign ext user_name lv); auto.
+      + apply andb_true_iff in G; destruct G as [G Gl]. apply andb_true_iff in G; destruct G as [Gn Ge].
+        inv_bind H. pose proof (names_of_ok _ _ Ha) as Etl.
+        pose proof (gnames_user _ _ Etl Gn) as Un.
+        assert (Ee : exists es, (e = ETuple es \/ e = EList es) /\ List.length es = List.length tl).
+        { destruct e; simpl in Gl; try discriminate; exists l0; split; auto; now apply Nat.eqb_eq. }
+        destruct Ee as (es & Ee & Les).
+        assert (H' : l = SAssign (TName temptup) e :: singles (EName temptup) a 0%Z).
+        { destruct Ee; subst e; inversion H; auto. }
+        clear H. subst l. split.
+        * simpl. rewrite (gexp_mono user_name visible lv e user_visible Ge), (singles_guard lv a 0%Z Un). reflexivity.
+        * intros rho rho' o' R H. rewrite exec_list_cons in H. simpl in H.
+          assert (Ev : eval rho' e = option_map VTup (all_some (map (eval rho') es))).
+          { destruct Ee; subst e; reflexivity. }
+          assert (Ev0 : eval rho e = eval rho' e) by (apply (eval_agree ext user_name lv); auto).
+          rewrite Ev in H. destruct (all_some (map (eval rho') es)) as [vals|] eqn:Evs; try discriminate.
+          simpl in H.
+          assert (Lv : List.length vals = List.length es).
+          { clear - Evs. revert vals Evs. induction es; simpl; intros vals H.
+            - inversion H; auto.
+            - destruct (eval rho' a); try discriminate. destruct (all_some (map (eval rho') es)); try discriminate.
+              simpl in H. inversion H; subst. simpl. f_equal. auto. }
+          assert (L1 : List.length a = List.length vals).
+          { rewrite Lv, Les, Etl, map_length. reflexivity. }
+          assert (T1 : upd rho' temptup (VTup vals) temptup = Some (VTup ([] ++ vals))).
+          { unfold upd. now rewrite String.eqb_refl. }
+          assert (R1 : Ragree user_name rho (upd rho' temptup (VTup vals))).
+          { apply Ragree_upd_r; auto. }
+          destruct (singles_sound a [] vals rho _ o' Un L1 T1 R1 H) as (r & Hr & Ro).
+          cbn [M_A2A.exec]. rewrite Ev0, Ev. cbn [option_map]. rewrite Etl, Hr. cbn [option_map]. eauto.
+    - inversion H; subst. split.
+      + cbn [forallb]. rewrite andb_true_r. apply (gstmt_mono user_name visible (SAugAssign x op e) user_visible lv). exact G.
+      + apply andb_true_iff in G; destruct G as [G Ge]. apply andb_true_iff in G; destruct G as [Gx Gop].
+        apply bsim_single. apply (bsim_aug ext user_name lv); auto.
+    - apply andb_true_iff in G; destruct G as [G Go]. apply andb_true_iff in G; destruct G as [Gc Gb].
+      inv_bind H. inv_bind H. inversion H; subst.
+      destruct (multi_flat_sound _ Hb _ _ Gb Ha) as (Gb' & Bb).
+      destruct (multi_flat_sound _ Ho _ _ Go Ha0) as (Go' & Bo).
+      split.
+      + simpl. now rewrite (gexp_mono user_name visible lv c user_visible Gc), Gb', Go'.
+      + apply bsim_single.
+        eapply bsim_ext; [| |apply (bsim_if ext user_name lv c c _ _ _ _ Gc (fun _ => eq_refl) Bb Bo)];
+          intro rho; now rewrite exec_if.
+    - apply andb_true_iff in G; destruct G as [G Gb]. apply andb_true_iff in G; destruct G as [Gx Gi].
+      inv_bind H. inversion H; subst.
+      destruct (multi_flat_sound _ Hb _ _ Gb Ha) as (Gb' & Bb).
+      split.
+      + cbn [forallb gstmt]. rewrite (user_visible _ Gx), Gb'. rewrite !andb_true_r. cbn [andb].
+        destruct (is_call "range" it); auto. apply (gargs_mono user_name visible); auto using user_visible.
+      + apply bsim_single.
+        eapply bsim_ext; [| |apply (bsim_for ext user_name lv x it _ _ Gi Bb)];
+          intro rho; now rewrite exec_for.
+    - inversion H; subst. split.
+      + simpl. rewrite andb_true_r. apply (gexp_mono user_name visible lv e user_visible G).
+      + apply bsim_single. apply (bsim_return ext user_name lv); auto.
+    - inversion H; subst. split.
+      + simpl. rewrite andb_true_r. destruct e; auto. apply (gexp_mono user_name visible lv e user_visible G).
+      + apply bsim_single. destruct e as [e|].
+        * apply (bsim_expr ext user_name lv); auto.
+        * intros rho rho' o' R H'. simpl in *. inversion H'; subst. exists (rho, None). split; auto. split; auto.
+  Qed.
+
+  Lemma multi_list_sound lv b b' :
+    forallb (gstmt user_name lv) b = true -> multi_list b = Ok b' ->
+    forallb (gstmt visible lv) b' = true /\ bsim user_name (exec_list b) (exec_list b').
+  Proof.
+    apply multi_flat_sound. apply Forall_forall. intros s _. apply multi_stmt_sound.
+  Qed.
+End Multi.
+
+(* ------------------------------------------------------------------ *)
+(* ASTRewriter: generated names                                        *)
+(* ------------------------------------------------------------------ *)
+Definition tmp (x : string) : string := String.append "__" x.
+Definition anyn : string -> bool := fun _ => true.
+
+Lemma prefix_append p s : prefix p (String.append p s) = true.
+Proof.
+  induction p as [|c p IH]; simpl.
+  - destruct s; reflexivity.
+  - destruct (ascii_dec c c); congruence.
+Qed.
+
+Lemma append_inj_l p s s' : String.append p s = String.append p s' -> s = s'.
+Proof. induction p; simpl; intro H; auto. inversion H; auto. Qed.
+
+Lemma tmp_dunder x : dunder (tmp x) = true.
+Proof. apply prefix_append. Qed.
+
+Lemma tmp_invisible x : visible (tmp x) = false.
+Proof. unfold visible. now rewrite tmp_dunder. Qed.
+
+Lemma iftarg_is u : is_iftarg (iftarg_name u) = true.
+Proof. apply prefix_append. Qed.
+
+Lemma iftarg_invisible u : visible (iftarg_name u) = false.
+Proof. unfold visible. rewrite iftarg_is. apply andb_false_r. Qed.
+
+Lemma hex_inj u u' : hex_of_N u = hex_of_N u' -> u = u'.
+Proof.
+  unfold hex_of_N. intro H.
+  apply (f_equal NilEmpty.uint_of_string) in H. rewrite !NilEmpty.usu in H. inversion H as [H1].
+  apply (f_equal N.of_hex_uint) in H1. now rewrite !Unsigned.of_to in H1.
+Qed.
+
+Lemma iftarg_inj u u' : iftarg_name u = iftarg_name u' -> u = u'.
+Proof. unfold iftarg_name. intro H. apply append_inj_l in H. now apply hex_inj. Qed.
+
+Lemma visible_inv x : visible x = true -> dunder x = false /\ is_iftarg x = false.
+Proof.
+  unfold visible. intro H. apply andb_true_iff in H. destruct H as [A B].
+  apply negb_true_iff in A, B. auto.
+Qed.
+
+(* ------------------------------------------------------------------ *)
+(* ASTRewriter on guarded expressions: only List -> Tuple               *)
+(* ------------------------------------------------------------------ *)
+Lemma special_false f :
+  existsb (String.eqb f) special_calls = false ->
+  String.eqb f "len" = false /\ String.eqb f "sum" = false /\ String.eqb f "all" = false /\
+  String.eqb f "any" = false /\ String.eqb f "min" = false /\ String.eqb f "max" = false /\
+  String.eqb f "abs" = false /\ String.eqb f "print" = false /\ String.eqb f "range" = false /\
+  String.eqb f "ord" = false /\ String.eqb f "chr" = false.
+Proof.
+  unfold special_calls. cbn [existsb]. intro H.
+  repeat (apply orb_false_iff in H; destruct H as [? H]). repeat split; assumption.
+Qed.
+
+Section RwExp.
+  Variable ext : string -> list val -> option val.
+  Notation eval := (eval ext).
+
+  Lemma rw_exp_sound st e : forall e',
+    gexp visible [] e = true -> rw_exp st e = Ok e' ->
+    (forall rho, eval rho e' = eval rho e) /\ gexp visible [] e' = true.
+  Proof.
+    induction e as [x|c|e IHe|op l H0|op e1 e2 IHe1 IHe2|op e IHe|op e1 e2 IHe1 IHe2|e1 e2 e3 IHe1 IHe2 IHe3|l H0|l H0|e1 e2 IHe1 IHe2|f args H0]
+      using exp_ind2; intros e' G H; cbn [gexp rw_exp] in G, H.
+    - destruct (visible_inv _ G) as [D _]. rewrite D in H. inversion H; subst. auto.
+    - inversion H; subst. auto.
+    - discriminate.
+    - inv_bind H. inversion H; subst. apply mapM_ok in Ha.
+      assert (K : Forall2 (fun x y => (forall rho, eval rho y = eval rho x) /\ gexp visible [] y = true) l a).
+      { revert G H0. clear H. induction Ha; intros G F; constructor.
+        - simpl in G. apply andb_true_iff in G. destruct G. inversion F; subst. auto.
+        - simpl in G. apply andb_true_iff in G. destruct G. inversion F; subst. auto. }
+      split.
+      + intro rho. simpl. apply boolop_with_ext. clear - K. induction K; constructor; auto. destruct H. auto.
+      + simpl. clear - K. induction K; simpl; auto. destruct H as [_ ->]. auto.
+    - apply andb_true_iff in G; destruct G as [G Gb]. apply andb_true_iff in G; destruct G as [Gop Ga].
+      assert (H' : bind (rw_exp st e1) (fun a' => bind (rw_exp st e2) (fun b' => Ok (EBinOp op a' b'))) = Ok e').
+      { destruct op; try discriminate; exact H. }
+      clear H. inv_bind H'. inv_bind H'. inversion H'; subst.
+      destruct (IHe1 _ Ga Ha) as (E1 & G1). destruct (IHe2 _ Gb Ha0) as (E2 & G2). split.
+      + intro rho; simpl. now rewrite E1, E2.
+      + simpl. now rewrite Gop, G1, G2.
+    - inv_bind H. inversion H; subst. destruct (IHe _ G Ha) as (E1 & G1). split; auto.
+      intro rho; simpl. now rewrite E1.
+    - apply andb_true_iff in G; destruct G as [Ga Gb].
+      inv_bind H. inv_bind H. inversion H; subst.
+      destruct (IHe1 _ Ga Ha) as (E1 & G1). destruct (IHe2 _ Gb Ha0) as (E2 & G2). split.
+      + intro rho; simpl. now rewrite E1, E2.
+      + simpl. now rewrite G1, G2.
+    - apply andb_true_iff in G; destruct G as [G Gf]. apply andb_true_iff in G; destruct G as [Gc Gt].
+      inv_bind H. inv_bind H. inv_bind H. inversion H; subst.
+      destruct (IHe1 _ Gc Ha) as (E1 & G1). destruct (IHe2 _ Gt Ha0) as (E2 & G2).
+      destruct (IHe3 _ Gf Ha1) as (E3 & G3). split.
+      + intro rho; simpl. now rewrite E1, E2, E3.
+      + simpl. now rewrite G1, G2, G3.
+    - inv_bind H. inversion H; subst. apply mapM_ok in Ha.
+      assert (K : Forall2 (fun x y => (forall rho, eval rho y = eval rho x) /\ gexp visible [] y = true) l a).
+      { revert G H0. clear H. induction Ha; intros G F; constructor.
+        - simpl in G. apply andb_true_iff in G. destruct G. inversion F; subst. auto.
+        - simpl in G. apply andb_true_iff in G. destruct G. inversion F; subst. auto. }
+      split.
+      + intro rho. simpl. f_equal. apply all_some_map_ext. clear - K. induction K; constructor; auto. destruct H. auto.
+      + simpl. clear - K. induction K; simpl; auto. destruct H as [_ ->]. auto.
+    - inv_bind H. inversion H; subst. apply mapM_ok in Ha.
+      assert (K : Forall2 (fun x y => (forall rho, eval rho y = eval rho x) /\ gexp visible [] y = true) l a).
+      { revert G H0. clear H. induction Ha; intros G F; constructor.
+        - simpl in G. apply andb_true_iff in G. destruct G. inversion F; subst. auto.
+        - simpl in G. apply andb_true_iff in G. destruct G. inversion F; subst. auto. }
+      split.
+      + intro rho. simpl. f_equal. apply all_some_map_ext. clear - K. induction K; constructor; auto. destruct H. auto.
+      + simpl. clear - K. induction K; simpl; auto. destruct H as [_ ->]. auto.
+    - apply andb_true_iff in G; destruct G as [Gv Gs].
+      destruct e2; try discriminate.
+      + simpl in Gs. rewrite andb_false_r in Gs. discriminate.
+      + cbn [rw_subscript] in H. inversion H; subst. split; auto. cbn [gexp]. now rewrite Gv, Gs.
+    - apply andb_true_iff in G; destruct G as [Gf Ga]. apply negb_true_iff in Gf.
+      destruct (special_false _ Gf) as (F1 & F2 & F3 & F4 & F5 & F6 & F7 & F8 & F9 & F10 & F11).
+      inv_bind H. rewrite F1, F2, F3, F4, F5, F6, F8, F9, F10, F11 in H. cbn [orb] in H. inversion H; subst.
+      apply mapM_ok in Ha.
+      assert (K : Forall2 (fun x y => (forall rho, eval rho y = eval rho x) /\ gexp visible [] y = true) args a).
+      { revert Ga H0. clear H. induction Ha; intros G F; constructor.
+        - simpl in G. apply andb_true_iff in G. destruct G. inversion F; subst. auto.
+        - simpl in G. apply andb_true_iff in G. destruct G. inversion F; subst. auto. }
+      split.
+      + intro rho. simpl.
+        replace (all_some (map (eval rho) a)) with (all_some (map (eval rho) args)); auto.
+        apply all_some_map_ext. clear - K. induction K; constructor; auto. destruct H. auto.
+      + cbn [gexp]. rewrite Gf. simpl. clear - K. induction K; simpl; auto. destruct H as [_ ->]. auto.
+  Qed.
+
+  Lemma rw_args_sound st args args' :
+    forallb (gexp visible []) args = true -> mapM (rw_exp st) args = Ok args' ->
+    (forall rho, all_some (map (eval rho) args') = all_some (map (eval rho) args)) /\
+    forallb (gexp visible []) args' = true.
+  Proof.
+    revert args'; induction args as [|a r IH]; intros args' G H; simpl in H.
+    - inversion H; subst; auto.
+    - simpl in G. apply andb_true_iff in G; destruct G as [Ga Gr].
+      inv_bind H. inv_bind H. inversion H; subst.
+      destruct (rw_exp_sound st _ _ Ga Ha) as (E1 & G1). destruct (IH _ Gr Ha0) as (E2 & G2).
+      split.
+      + intro rho. simpl. now rewrite E1, E2.
+      + simpl. now rewrite G1, G2.
+  Qed.
+End RwExp.
+
+(* ------------------------------------------------------------------ *)
+(* NameValReplacer with a constant                                     *)
+(* ------------------------------------------------------------------ *)
+Fixpoint notup (s : stmt) : bool :=
+  match s with
+  | SAssign (TTuple _) _ => false
+  | SIf _ b o => forallb notup b && forallb notup o
+  | SFor _ _ b => forallb notup b
+  | _ => true
+  end.
+
+Lemma multi_notup s : forall l, multi_stmt s = Ok l -> forallb notup l = true.
+Proof.
+  assert (S : forall v names k, forallb notup (singles v names k) = true).
+  { intros v names; induction names; intro k; simpl; auto. }
+  assert (F : forall b, Forall (fun s => forall l, multi_stmt s = Ok l -> forallb notup l = true) b ->
+                        forall b', flat_mapM multi_stmt b = Ok b' -> forallb notup b' = true).
+  { induction 1; intros b' H1; simpl in H1.
+    - inversion H1; auto.
+    - inv_bind H1. inv_bind H1. inversion H1; subst. rewrite forallb_app, (H _ Ha), (IHForall _ Ha0). auto. }
+  induction s as [t e|x op e|c b o Hb Ho|x it b Hb|e|e] using stmt_ind2; intros l H; cbn [multi_stmt] in H.
+  - destruct t.
+    + inversion H; auto.
+    + inv_bind H. destruct e; inversion H; subst; simpl; auto using S.
+  - inversion H; auto.
+  - inv_bind H. inv_bind H. inversion H; subst. simpl. now rewrite (F _ Hb _ Ha), (F _ Ho _ Ha0).
+  - inv_bind H. inversion H; subst. simpl. now rewrite (F _ Hb _ Ha).
+  - inversion H; auto.
+  - inversion H; auto.
+Qed.
+
+Lemma multi_list_notup b b' : multi_list b = Ok b' -> forallb notup b' = true.
+Proof.
+  unfold multi_list. revert b'. induction b; intros b' H; simpl in H.
+  - inversion H; auto.
+  - inv_bind H. inv_bind H. inversion H; subst. rewrite forallb_app, (multi_notup _ _ Ha), (IHb _ Ha0). auto.
+Qed.
+
+Section Subst.
+  Variable ext : string -> list val -> option val.
+  Notation eval := (eval ext).
+  Notation exec := (exec ext).
+  Notation exec_list := (exec_list ext).
+  Notation iter_vals := (iter_vals ext).
+  Variable x : string.
+  Variable c : cst.
+  Variable w : val.
+  Hypothesis Hw : val_of_cst c = Some w.
+
+  Lemma subst_exp_sound e : forall e' rho,
+    subst_exp x (EConst c) e = Ok e' -> rho x = Some w -> eval rho e' = eval rho e.
+  Proof.
+    induction e as [y|k|e IHe|op l H0|op e1 e2 IHe1 IHe2|op e IHe|op e1 e2 IHe1 IHe2|e1 e2 e3 IHe1 IHe2 IHe3|l H0|l H0|e1 e2 IHe1 IHe2|f args H0]
+      using exp_ind2; intros e' rho H X; cbn [subst_exp] in H.
+    - inversion H; subst. destruct (String.eqb y x) eqn:E; auto.
+      apply String.eqb_eq in E. subst. simpl. now rewrite X.
+    - inversion H; auto.
+    - inv_bind H. inversion H; subst. simpl. eauto.
+    - inv_bind H. inversion H; subst. apply mapM_ok in Ha. simpl. apply boolop_with_ext.
+      revert H0. clear H. induction Ha; intro F; constructor; inversion F; subst; eauto.
+    - inv_bind H. inv_bind H. inversion H; subst. simpl. now rewrite (IHe1 _ _ Ha X), (IHe2 _ _ Ha0 X).
+    - inv_bind H. inversion H; subst. simpl. now rewrite (IHe _ _ Ha X).
+    - inv_bind H. inv_bind H. inversion H; subst. simpl. now rewrite (IHe1 _ _ Ha X), (IHe2 _ _ Ha0 X).
+    - inv_bind H. inv_bind H. inv_bind H. inversion H; subst. simpl.
+      now rewrite (IHe1 _ _ Ha X), (IHe2 _ _ Ha0 X), (IHe3 _ _ Ha1 X).
+    - inv_bind H. inversion H; subst. apply mapM_ok in Ha. simpl. f_equal. apply all_some_map_ext.
+      revert H0. clear H. induction Ha; intro F; constructor; inversion F; subst; eauto.
+    - inv_bind H. inversion H; subst. apply mapM_ok in Ha. simpl. f_equal. apply all_some_map_ext.
+      revert H0. clear H. induction Ha; intro F; constructor; inversion F; subst; eauto.
+    - inv_bind H. inv_bind H. inversion H; subst. simpl. now rewrite (IHe1 _ _ Ha X), (IHe2 _ _ Ha0 X).
+    - destruct (String.eqb f x); try discriminate. inv_bind H. inversion H; subst. apply mapM_ok in Ha. simpl.
+      replace (all_some (map (eval rho) a)) with (all_some (map (eval rho) args)); auto.
+      apply all_some_map_ext. revert H0. clear H. induction Ha; intro F; constructor; inversion F; subst; auto.
+      symmetry; eauto.
+  Qed.
+
+  Lemma subst_args_sound args args' rho :
+    mapM (subst_exp x (EConst c)) args = Ok args' -> rho x = Some w ->
+    all_some (map (eval rho) args') = all_some (map (eval rho) args).
+  Proof.
+    intros H X. apply mapM_ok in H. apply all_some_map_ext.
+    induction H; constructor; eauto using subst_exp_sound.
+  Qed.
+
+  (* whether the expression is a call of [g] is not changed *)
+  Lemma subst_is_call g e e' :
+    subst_exp x (EConst c) e = Ok e' ->
+    match is_call g e with
+    | Some args => exists args', is_call g e' = Some args' /\ mapM (subst_exp x (EConst c)) args = Ok args'
+    | None => is_call g e' = None
+    end.
+  Proof.
+    destruct e; cbn [subst_exp]; intro H;
+      try (inv_bind H); try (inv_bind H); try (inv_bind H); try (inversion H; subst; reflexivity).
+    - inversion H. destruct (String.eqb x0 x); reflexivity.
+    - destruct (String.eqb f x); try discriminate. inv_bind H. inversion H; subst.
+      rewrite !is_call_call. destruct (String.eqb f g); eauto.
+  Qed.
+
+  Lemma subst_iter_sound it it' rho :
+    subst_exp x (EConst c) it = Ok it' -> rho x = Some w -> iter_vals rho it' = iter_vals rho it.
+  Proof.
+    intros H X. pose proof (subst_is_call "range" _ _ H) as K.
+    destruct (is_call "range" it) as [args|] eqn:Ci.
+    - destruct K as (args' & Ci' & Ha). apply is_call_some in Ci, Ci'. subst.
+      rewrite !iter_vals_range. now rewrite (subst_args_sound _ _ _ Ha X).
+    - rewrite !iter_vals_other by auto. now rewrite (subst_exp_sound _ _ _ H X).
+  Qed.
+
+  Definition subst_spec (s : stmt) : Prop :=
+    forall inner s', notup s = true -> subst_stmt inner x (EConst c) s = Ok s' ->
+    forall rho, rho x = Some w ->
+                exec s' rho = exec s rho /\ (forall rho1 r, exec s rho = Some (rho1, r) -> rho1 x = Some w).
+
+  Lemma subst_list_sound b : Forall subst_spec b ->
+    forall inner b', forallb notup b = true -> mapM (subst_stmt inner x (EConst c)) b = Ok b' ->
+    forall rho, rho x = Some w ->
+                exec_list b' rho = exec_list b rho /\
+                (forall rho1 r, exec_list b rho = Some (rho1, r) -> rho1 x = Some w).
+  Proof.
+    induction 1 as [|s r Hs Hr IH]; intros inner b' N H rho X; simpl in H.
+    - inversion H; subst. split; auto. intros rho1 r1 E. inversion E; subst; auto.
+    - simpl in N. apply andb_true_iff in N; destruct N as [Ns Nr].
+      inv_bind H. inv_bind H. inversion H; subst.
+      destruct (Hs _ _ Ns Ha rho X) as (E1 & P1).
+      rewrite !exec_list_cons, E1.
+      destruct (exec s rho) as [[r1 [v|]]|] eqn:Es.
+      + split; auto; intros rho1 r2 E; inversion E; subst; eauto.
+      + destruct (IH _ _ Nr Ha0 r1 (P1 _ _ eq_refl)) as (E2 & P2). split; auto.
+      + split; auto; discriminate.
+  Qed.
+
+  Lemma upd_other rho y v : String.eqb y x = false -> upd rho y v x = rho x.
+  Proof. unfold upd. intros ->. reflexivity. Qed.
+
+  Lemma subst_stmt_sound s : subst_spec s.
+  Proof.
+    induction s as [t e|y op e|k b o Hb Ho|y it b Hb|e|e] using stmt_ind2; intros inner s' N H rho X;
+      cbn [subst_stmt] in H.
+    - destruct t as [y|tl]; [|discriminate].
+      destruct (String.eqb y x) eqn:Eyx; [destruct inner; discriminate|].
+      inv_bind H. inversion H; subst. simpl. rewrite (subst_exp_sound _ _ _ Ha X). split; auto.
+      intros rho1 r E. destruct (eval rho e); try discriminate. inversion E; subst. now rewrite upd_other.
+    - destruct (String.eqb y x) eqn:Eyx; [destruct inner; discriminate|].
+      inv_bind H. inversion H; subst. simpl. rewrite (subst_exp_sound _ _ _ Ha X). split; auto.
+      intros rho1 r E. destruct (rho y); try discriminate. destruct (eval rho e); try discriminate.
+      destruct (binop_val op v v0); try discriminate. simpl in E. inversion E; subst. now rewrite upd_other.
+    - simpl in N. apply andb_true_iff in N; destruct N as [Nb No].
+      inv_bind H. inv_bind H. inv_bind H. inversion H; subst.
+      rewrite !exec_if, (subst_exp_sound _ _ _ Ha X).
+      destruct (subst_list_sound _ Hb _ _ Nb Ha0 rho X) as (Eb & Pb).
+      destruct (subst_list_sound _ Ho _ _ No Ha1 rho X) as (Eo & Po).
+      destruct (eval rho k) as [v|]; [|split; [auto|discriminate]].
+      destruct (truthy v); split; auto.
+    - simpl in N. destruct (String.eqb y x) eqn:Eyx; [destruct inner; discriminate|].
+      inv_bind H. inv_bind H. inversion H; subst.
+      rewrite !exec_for, (subst_iter_sound _ _ _ Ha X).
+      destruct (iter_vals rho it) as [vs|]; [|split; [auto|discriminate]].
+      clear Ha. revert rho X. induction vs as [|v vs IHv]; intros rho X; simpl.
+      + split; auto. intros rho1 r E; inversion E; subst; auto.
+      + assert (X' : upd rho y v x = Some w) by (now rewrite upd_other).
+        destruct (subst_list_sound _ Hb _ _ N Ha0 _ X') as (Eb & Pb). rewrite Eb.
+        destruct (exec_list b (upd rho y v)) as [[r1 [u|]]|] eqn:Es.
+        * split; auto; intros rho1 r2 E; inversion E; subst; eauto.
+        * apply IHv. eauto.
+        * split; auto; discriminate.
+    - inv_bind H. inversion H; subst. simpl. rewrite (subst_exp_sound _ _ _ Ha X). split; auto.
+      intros rho1 r E. destruct (eval rho e); try discriminate. inversion E; subst. auto.
+    - destruct e as [e|].
+      + inv_bind H. inversion H; subst. cbn [M_A2A.exec].
+        pose proof (subst_is_call "print" _ _ Ha) as K.
+        destruct (is_call "print" e) as [args|] eqn:Ci.
+        * destruct K as (args' & -> & Ha'). rewrite (subst_args_sound _ _ _ Ha' X). split; auto.
+          intros rho1 r E. destruct (all_some (map (eval rho) args)); try discriminate. inversion E; subst; auto.
+        * rewrite K, (subst_exp_sound _ _ _ Ha X). split; auto.
+          intros rho1 r E. destruct (eval rho e); try discriminate. inversion E; subst; auto.
+      + inversion H; subst. split; auto. intros rho1 r E. simpl in E. inversion E; subst; auto.
+  Qed.
+
+  Lemma subst_body_sound inner b b' rho :
+    forallb notup b = true -> mapM (subst_stmt inner x (EConst c)) b = Ok b' -> rho x = Some w ->
+    exec_list b' rho = exec_list b rho.
+  Proof.
+    intros N H X. apply (subst_list_sound b) with (inner := inner); auto.
+    apply Forall_forall. intros s _. apply subst_stmt_sound.
+  Qed.
+End Subst.
+
+Lemma forallb_Forall2 {A B} (P : A -> bool) (Q : B -> bool) (R : A -> B -> Prop) l l' :
+  Forall2 R l l' -> Forall (fun a => forall b, P a = true -> R a b -> Q b = true) l ->
+  forallb P l = true -> forallb Q l' = true.
+Proof.
+  induction 1 as [|a b l l' Rab F IH]; intros Fa G; simpl in *; auto.
+  apply andb_true_iff in G; destruct G as [Ga Gl]. inversion Fa; subst.
+  rewrite (H1 _ Ga Rab), IH; auto.
+Qed.
+
+(* the guard after the substitution: one loop variable less *)
+Section SubstGuard.
+  Variable okn : string -> bool.
+  Variable x : string.
+  Variable c : cst.
+  Hypothesis Vc : valued c = true.
+
+  Lemma subst_exp_guard l1 l2 e : forall e',
+    gexp okn (l1 ++ x :: l2) e = true -> subst_exp x (EConst c) e = Ok e' -> gexp okn (l1 ++ l2) e' = true.
+  Proof.
+    induction e as [y|k|e IHe|op l H0|op e1 e2 IHe1 IHe2|op e IHe|op e1 e2 IHe1 IHe2|e1 e2 e3 IHe1 IHe2 IHe3|l H0|l H0|e1 e2 IHe1 IHe2|f args H0]
+      using exp_ind2; intros e' G H; cbn [gexp subst_exp] in G, H.
+    - inversion H; subst. destruct (String.eqb y x); auto.
+    - inversion H; subst; auto.
+    - discriminate.
+    - inv_bind H. inversion H; subst. apply mapM_ok in Ha. cbn [gexp].
+      apply (forallb_Forall2 _ _ _ _ _ Ha H0 G).
+    - apply andb_true_iff in G; destruct G as [G Gb]. apply andb_true_iff in G; destruct G as [Gop Ga].
+      inv_bind H. inv_bind H. inversion H; subst. cbn [gexp]. now rewrite Gop, (IHe1 _ Ga Ha), (IHe2 _ Gb Ha0).
+    - inv_bind H. inversion H; subst. cbn [gexp]. eauto.
+    - apply andb_true_iff in G; destruct G as [Ga Gb].
+      inv_bind H. inv_bind H. inversion H; subst. cbn [gexp]. now rewrite (IHe1 _ Ga Ha), (IHe2 _ Gb Ha0).
+    - apply andb_true_iff in G; destruct G as [G Gf]. apply andb_true_iff in G; destruct G as [Gc Gt].
+      inv_bind H. inv_bind H. inv_bind H. inversion H; subst. cbn [gexp].
+      now rewrite (IHe1 _ Gc Ha), (IHe2 _ Gt Ha0), (IHe3 _ Gf Ha1).
+    - inv_bind H. inversion H; subst. apply mapM_ok in Ha. cbn [gexp].
+      apply (forallb_Forall2 _ _ _ _ _ Ha H0 G).
+    - inv_bind H. inversion H; subst. apply mapM_ok in Ha. cbn [gexp].
+      apply (forallb_Forall2 _ _ _ _ _ Ha H0 G).
+    - apply andb_true_iff in G; destruct G as [Gv Gs].
+      inv_bind H. inv_bind H. inversion H; subst. cbn [gexp]. rewrite (IHe1 _ Gv Ha). simpl.
+      destruct e2; try discriminate; cbn [subst_exp] in Ha0; inversion Ha0; subst.
+      + apply andb_true_iff in Gs; destruct Gs as [Gx Gl].
+        destruct (String.eqb x0 x) eqn:E; auto.
+        rewrite Gx. simpl. rewrite existsb_app in *. simpl in Gl. rewrite E in Gl. exact Gl.
+      + exact Gs.
+    - apply andb_true_iff in G; destruct G as [Gf Ga].
+      destruct (String.eqb f x); try discriminate. inv_bind H. inversion H; subst. cbn [gexp]. rewrite Gf. simpl.
+      apply mapM_ok in Ha. apply (forallb_Forall2 _ _ _ _ _ Ha H0 Ga).
+  Qed.
+
+  Lemma subst_args_guard l1 l2 args args' :
+    forallb (gexp okn (l1 ++ x :: l2)) args = true -> mapM (subst_exp x (EConst c)) args = Ok args' ->
+    forallb (gexp okn (l1 ++ l2)) args' = true.
+  Proof.
+    intros G H. apply mapM_ok in H. revert G. induction H; intro G; simpl in *; auto.
+    apply andb_true_iff in G; destruct G. rewrite (subst_exp_guard _ _ _ _ H1 H), IHForall2; auto.
+  Qed.
+
+  Lemma subst_const_list l : forallb valued_const l = true -> mapM (subst_exp x (EConst c)) l = Ok l.
+  Proof.
+    induction l; simpl; auto. intro H. apply andb_true_iff in H; destruct H as [H1 H2].
+    rewrite (IHl H2). destruct a; simpl in *; try discriminate. reflexivity.
+  Qed.
+
+  Definition subst_guard_spec (s : stmt) : Prop :=
+    forall inner l1 l2 s', notup s = true -> gstmt okn (l1 ++ x :: l2) s = true ->
+                           subst_stmt inner x (EConst c) s = Ok s' ->
+                           gstmt okn (l1 ++ l2) s' = true /\ notup s' = true.
+
+  Lemma subst_list_guard b : Forall subst_guard_spec b ->
+    forall inner l1 l2 b', forallb notup b = true -> forallb (gstmt okn (l1 ++ x :: l2)) b = true ->
+                           mapM (subst_stmt inner x (EConst c)) b = Ok b' ->
+                           forallb (gstmt okn (l1 ++ l2)) b' = true /\ forallb notup b' = true.
+  Proof.
+    induction 1 as [|s r Hs Hr IH]; intros inner l1 l2 b' N G H; simpl in H.
+    - inversion H; auto.
+    - simpl in N, G. apply andb_true_iff in N; destruct N as [Ns Nr]. apply andb_true_iff in G; destruct G as [Gs Gr].
+      inv_bind H. inv_bind H. inversion H; subst.
+      destruct (Hs _ _ _ _ Ns Gs Ha) as (G1 & N1). destruct (IH _ _ _ _ Nr Gr Ha0) as (G2 & N2).
+      simpl. now rewrite G1, N1, G2, N2.
+  Qed.
+
+  Lemma subst_stmt_guard s : subst_guard_spec s.
+  Proof.
+    induction s as [t e|y op e|k b o Hb Ho|y it b Hb|e|e] using stmt_ind2; intros inner l1 l2 s' N G H;
+      cbn [subst_stmt gstmt] in G, H.
+    - destruct t as [y|tl]; [|discriminate].
+      destruct (String.eqb y x); [destruct inner; discriminate|].
+      apply andb_true_iff in G; destruct G as [Gy Ge].
+      inv_bind H. inversion H; subst. cbn [gstmt notup]. now rewrite Gy, (subst_exp_guard _ _ _ _ Ge Ha).
+    - destruct (String.eqb y x); [destruct inner; discriminate|].
+      apply andb_true_iff in G; destruct G as [G Ge]. apply andb_true_iff in G; destruct G as [Gy Gop].
+      inv_bind H. inversion H; subst. cbn [gstmt notup]. now rewrite Gy, Gop, (subst_exp_guard _ _ _ _ Ge Ha).
+    - simpl in N. apply andb_true_iff in N; destruct N as [Nb No].
+      apply andb_true_iff in G; destruct G as [G Go]. apply andb_true_iff in G; destruct G as [Gc Gb].
+      inv_bind H. inv_bind H. inv_bind H. inversion H; subst.
+      destruct (subst_list_guard _ Hb _ _ _ _ Nb Gb Ha0) as (G1 & N1).
+      destruct (subst_list_guard _ Ho _ _ _ _ No Go Ha1) as (G2 & N2).
+      cbn [gstmt notup]. now rewrite (subst_exp_guard _ _ _ _ Gc Ha), G1, G2, N1, N2.
+    - simpl in N. destruct (String.eqb y x); [destruct inner; discriminate|].
+      apply andb_true_iff in G; destruct G as [G Gb]. apply andb_true_iff in G; destruct G as [Gy Gi].
+      inv_bind H. inv_bind H. inversion H; subst.
+      destruct (subst_list_guard _ Hb true (y :: l1) l2 _ N Gb Ha0) as (G1 & N1).
+      cbn [gstmt notup]. rewrite Gy, N1. simpl in G1. rewrite G1. rewrite andb_true_r. split; auto. simpl.
+      pose proof (subst_is_call x c "range" _ _ Ha) as K.
+      destruct (is_call "range" it) as [args|] eqn:Ci.
+      + destruct K as (args' & -> & Ha'). apply (subst_args_guard _ _ _ _ Gi Ha').
+      + rewrite K. destruct it; simpl in Gi; try discriminate; cbn [subst_exp] in Ha;
+          rewrite (subst_const_list _ Gi) in Ha; simpl in Ha; inversion Ha; subst; exact Gi.
+    - inv_bind H. inversion H; subst. cbn [gstmt notup]. split; auto. apply (subst_exp_guard _ _ _ _ G Ha).
+    - destruct e as [e|].
+      + inv_bind H. inversion H; subst. cbn [gstmt notup]. split; auto. apply (subst_exp_guard _ _ _ _ G Ha).
+      + inversion H; subst. auto.
+  Qed.
+
+  Lemma subst_body_guard inner lv b b' :
+    forallb notup b = true -> forallb (gstmt okn (x :: lv)) b = true ->
+    mapM (subst_stmt inner x (EConst c)) b = Ok b' ->
+    forallb (gstmt okn lv) b' = true /\ forallb notup b' = true.
+  Proof.
+    intros N G H. apply (subst_list_guard b) with (inner := inner) (l1 := []) (l2 := lv); auto.
+    apply Forall_forall. intros s _. apply subst_stmt_guard.
+  Qed.
+End SubstGuard.
+
+(* ------------------------------------------------------------------ *)
+(* ASTRewriter on statements                                           *)
+(* ------------------------------------------------------------------ *)
+Section Rw.
+  Variable ext : string -> list val -> option val.
+  Notation eval := (eval ext).
+  Notation exec := (exec ext).
+  Notation exec_list := (exec_list ext).
+  Notation iter_vals := (iter_vals ext).
+
+  (* what the rewriter emits: assignments to names, Return, Expr; a target `_iftargK` has
+     lo < K <= hi (the counter before / after) *)
+  Definition stmt_shape (lo hi : N) (s : stmt) : Prop :=
+    match s with
+    | SAssign (TName y) _ => is_iftarg y = true -> exists k, (lo < k <= hi)%N /\ y = iftarg_name k
+    | SReturn _ | SExpr _ => True
+    | _ => False
+    end.
+  Definition shape lo hi (l : list stmt) : Prop := Forall (stmt_shape lo hi) l.
+
+  Lemma shape_mono lo hi lo' hi' l : (lo' <= lo)%N -> (hi <= hi')%N -> shape lo hi l -> shape lo' hi' l.
+  Proof.
+    intros L1 L2 S. induction S as [|s l Hs Hl IH]; constructor; auto.
+    destruct s as [[y|]| | | | |]; simpl in *; auto.
+    intro I. destruct (Hs I) as (k & K & E). exists k. split; auto. lia.
+  Qed.
+
+  Lemma shape_app lo hi l1 l2 : shape lo hi l1 -> shape lo hi l2 -> shape lo hi (l1 ++ l2).
+  Proof. apply Forall_app_intro || (intros; apply Forall_app; auto). Qed.
+
+  Definition target_of (s : stmt) : option string :=
+    match s with SAssign (TName y) _ => Some y | _ => None end.
+
+  Lemma shape_fresh lo hi l u :
+    shape lo hi l -> (hi < u)%N -> Forall (fun b => target_of b <> Some (iftarg_name u)) l.
+  Proof.
+    intros S L. induction S as [|s l Hs Hl IH]; constructor; auto.
+    destruct s as [[y|]| | | | |]; simpl in *; try discriminate.
+    intro E. inversion E; subst y. destruct (Hs (iftarg_is u)) as (k & K & Ek).
+    apply iftarg_inj in Ek. lia.
+  Qed.
+
+  Lemma seq_assoc (a b c : env -> outcome) rho : seq (seq a b) c rho = seq a (seq b c) rho.
+  Proof. unfold seq. destruct (a rho) as [[r [v|]]|]; auto. Qed.
+
+  (* ---------- self-referencing assignments and augmented assignments ---------- *)
+  Lemma bsim_tmp x e v :
+    visible x = true -> gexp visible [] e = true -> (forall rho, eval rho v = eval rho e) ->
+    bsim visible (exec (SAssign (TName x) e))
+                 (exec_list [SAssign (TName (tmp x)) v; SAssign (TName x) (EName (tmp x))]).
+  Proof.
+    intros Vx G E rho rho' o' R H.
+    rewrite exec_list_cons in H. cbn [M_A2A.exec] in H. rewrite E in H.
+    cbn [M_A2A.exec]. rewrite (eval_agree ext visible [] e rho rho' G R).
+    destruct (eval rho' e) as [w|]; try discriminate.
+    rewrite exec_list_single in H. cbn [M_A2A.exec M_A2A.eval] in H.
+    unfold upd at 1 in H. rewrite String.eqb_refl in H. inversion H; subst.
+    exists (upd rho x w, None). split; auto. split; simpl; auto.
+    apply Ragree_upd. apply Ragree_upd_r; auto. apply tmp_invisible.
+  Qed.
+
+  Lemma aug_as_assign x op e rho :
+    exec (SAugAssign x op e) rho = exec (SAssign (TName x) (EBinOp op (EName x) e)) rho.
+  Proof.
+    simpl. destruct (rho x) as [a|]; auto; destruct (eval rho e) as [b|]; auto;
+      destruct (binop_val op a b); auto.
+  Qed.
+
+  Lemma assign_env_ok st x e st1 e1 :
+    gexp visible [] e = true -> assign_env st x e = Ok (st1, e1) ->
+    uq st1 = uq st /\ (forall rho, eval rho e1 = eval rho e) /\ gexp visible [] e1 = true.
+  Proof.
+    intros G H.
+    assert (T : forall l, (e = ETuple l \/ e = EList l) ->
+                uq st1 = uq st /\ (forall rho, eval rho e1 = eval rho e) /\ gexp visible [] e1 = true).
+    { intros l El. assert (H' : bind (rw_exp st e) (fun r1 =>
+                 if Bool.eqb (name_in x e) (name_in x r1) then Ok (set_constant st x r1, r1) else Unmod) = Ok (st1, e1)).
+      { destruct El; subst e; exact H. }
+      inv_bind H'. destruct (Bool.eqb _ _); try discriminate. inversion H'; subst.
+      destruct (rw_exp_sound ext st _ _ G Ha) as (E1 & G1). split; auto.
+      unfold set_constant. destruct e1; destruct (has_key (tys st) x); reflexivity. }
+    destruct e; try (eapply T; eauto; fail); simpl in H.
+    - destruct (in_env st x0).
+      + destruct (assoc (tys st) x0); inversion H; subst. split; [reflexivity|split; auto].
+      + inversion H; subst. split; [reflexivity|split; auto].
+    - inversion H; subst. split; [|split; auto]. destruct (has_key (tys st) x); reflexivity.
+    - discriminate G.
+    - inversion H; subst. split; [reflexivity|split; auto].
+    - inversion H; subst. split; [reflexivity|split; auto].
+    - inversion H; subst. split; [reflexivity|split; auto].
+    - inversion H; subst. split; [reflexivity|split; auto].
+    - inversion H; subst. split; [reflexivity|split; auto].
+    - inversion H; subst. split; [reflexivity|split; auto].
+    - inversion H; subst. split; [reflexivity|split; auto].
+  Qed.
+
+  Lemma one_shape lo hi x e : visible x = true -> stmt_shape lo hi (SAssign (TName x) e).
+  Proof. intros V I. destruct (visible_inv _ V). congruence. Qed.
+
+  Lemma tmp_shape lo hi x e : stmt_shape lo hi (SAssign (TName (tmp x)) e).
+  Proof.
+    intro I. pose proof (tmp_dunder x) as D. unfold is_iftarg, dunder, iftarg_prefix, tmp in *.
+    simpl in *. destruct x as [|a s]; simpl in *; discriminate.
+  Qed.
+
+  Lemma rw_assign_sound st x e l st' :
+    visible x = true -> gexp visible [] e = true -> rw_assign st x e = Ok (l, st') ->
+    uq st' = uq st /\ shape (uq st) (uq st') l /\ forallb (gstmt anyn []) l = true /\
+    bsim visible (exec (SAssign (TName x) e)) (exec_list l).
+  Proof.
+    intros Vx G H. unfold rw_assign in H. inv_bind H. destruct a as [st1 e1]. inv_bind H.
+    destruct (assign_env_ok _ _ _ _ _ G Ha) as (U & E1 & G1).
+    destruct (rw_exp_sound ext st1 _ _ G1 Ha0) as (E2 & G2).
+    assert (Ev : forall rho, eval rho a = eval rho e) by (intro rho; now rewrite E2, E1).
+    assert (Ga : gexp anyn [] a = true) by (apply (gexp_mono visible anyn); auto).
+    destruct (is_seq_lit e && negb (exp_eqb a e1)); try discriminate.
+    destruct (name_in x e1 && in_env st x && negb (is_constant e)); inversion H; subst.
+    - split; auto. split; [|split].
+      + constructor; [apply tmp_shape|constructor; [apply one_shape; auto|constructor]].
+      + simpl. now rewrite Ga.
+      + apply bsim_tmp; auto.
+    - split; auto. split; [|split].
+      + constructor; [apply one_shape; auto|constructor].
+      + simpl. now rewrite Ga.
+      + apply bsim_single. apply (bsim_assign ext visible []); auto.
+  Qed.
+
+  (* ---------- if-flattening ---------- *)
+  (* how visit_If wraps a statement of the (already rewritten) body / orelse *)
+  Definition WB (t : string) (b wb : stmt) : Prop :=
+    exists y e o, b = SAssign (TName y) e /\ wb = SAssign (TName y) (EIfExp (EName t) e (EName o)) /\
+                  (visible y = true -> o = y).
+  Definition WE (t : string) (b wb : stmt) : Prop :=
+    exists y e, b = SAssign (TName y) e /\
+                ((wb = b /\ visible y = false) \/
+                 exists o, wb = SAssign (TName y) (EIfExp (EName t) (EName o) e) /\ (visible y = true -> o = y)).
+
+  Lemma wrap_body_WB st t l bl : mapM (wrap_body st t) l = Ok bl -> Forall2 (WB t) l bl.
+  Proof.
+    intro H. apply mapM_ok in H. induction H as [|b wb l bl H Hl IH]; constructor; auto.
+    destruct b as [[y|]| | | | |]; simpl in H; try discriminate. inversion H; subst.
+    exists y, e, (if dunder y && negb (in_env st y) then drop2 y else y). split; auto. split; auto.
+    intro V. destruct (visible_inv _ V) as [D _]. now rewrite D.
+  Qed.
+
+  Lemma wrap_else_WE st t l ol : mapM (wrap_else st t) l = Ok ol -> Forall2 (WE t) l ol.
+  Proof.
+    intro H. apply mapM_ok in H. induction H as [|b wb l ol H Hl IH]; constructor; auto.
+    destruct b as [[y|]| | | | |]; simpl in H; try discriminate. exists y, e. split; auto.
+    destruct (dunder y && negb (in_env st y)) eqn:D.
+    - inversion H; subst. right. exists (drop2 y). split; auto. intro V.
+      destruct (visible_inv _ V) as [D' _]. rewrite D' in D. discriminate.
+    - destruct (is_iftarg y) eqn:I; inversion H; subst.
+      + left. split; auto. unfold visible. rewrite I. apply andb_false_r.
+      + right. exists y. auto.
+  Qed.
+
+  Lemma WB_shape t lo hi l bl : Forall2 (WB t) l bl -> shape lo hi l -> shape lo hi bl.
+  Proof.
+    induction 1 as [|b wb l bl Hb Hl IH]; intro S; inversion S as [|? ? S1 S2]; subst; constructor.
+    - destruct Hb as (y0 & e & o & -> & -> & _). exact S1.
+    - apply IH. exact S2.
+  Qed.
+
+  Lemma WE_shape t lo hi l ol : Forall2 (WE t) l ol -> shape lo hi l -> shape lo hi ol.
+  Proof.
+    induction 1 as [|b wb l bl Hb Hl IH]; intro S; inversion S as [|? ? S1 S2]; subst; constructor.
+    - destruct Hb as (y0 & e & -> & [[-> _]|(o & -> & _)]); exact S1.
+    - apply IH. exact S2.
+  Qed.
+
+  Lemma WB_guard t l bl : Forall2 (WB t) l bl -> forallb (gstmt anyn []) l = true -> forallb (gstmt anyn []) bl = true.
+  Proof.
+    induction 1; intro G; simpl in *; auto. apply andb_true_iff in G; destruct G as [G1 G2].
+    rewrite IHForall2 by auto. destruct H as (y0 & e & o & -> & -> & _). simpl in *. now rewrite G1.
+  Qed.
+
+  Lemma WE_guard t l ol : Forall2 (WE t) l ol -> forallb (gstmt anyn []) l = true -> forallb (gstmt anyn []) ol = true.
+  Proof.
+    induction 1; intro G; simpl in *; auto. apply andb_true_iff in G; destruct G as [G1 G2].
+    rewrite IHForall2 by auto. destruct H as (y0 & e & -> & [[-> _]|(o & -> & _)]); simpl in *; now rewrite G1.
+  Qed.
+
+  Lemma upd_keep rho y v t : y <> t -> upd rho y v t = rho t.
+  Proof. intro N. unfold upd. destruct (String.eqb y t) eqn:E; auto. apply String.eqb_eq in E. congruence. Qed.
+
+  (* the test is true: the wrapped body is the body *)
+  Lemma WB_true t vc l bl : Forall2 (WB t) l bl -> truthy vc = true ->
+    Forall (fun b => target_of b <> Some t) l ->
+    forall rho, rho t = Some vc -> exec_list bl rho = exec_list l rho.
+  Proof.
+    induction 1 as [|b wb l bl Hb Hl IH]; intros T F rho X; auto.
+    inversion F as [|? ? F1 F2]; subst. destruct Hb as (y & e & o & -> & -> & _).
+    rewrite !exec_list_cons. cbn [M_A2A.exec M_A2A.eval]. rewrite X, T.
+    destruct (eval rho e) as [w|]; auto. apply IH; auto.
+    rewrite upd_keep; auto. simpl in F1. congruence.
+  Qed.
+
+  (* the test is false: the wrapped orelse is the orelse *)
+  Lemma WE_false t vc l ol : Forall2 (WE t) l ol -> truthy vc = false ->
+    Forall (fun b => target_of b <> Some t) l ->
+    forall rho, rho t = Some vc -> exec_list ol rho = exec_list l rho.
+  Proof.
+    induction 1 as [|b wb l ol Hb Hl IH]; intros T F rho X; auto.
+    inversion F as [|? ? F1 F2]; subst. destruct Hb as (y & e & -> & [[-> _]|(o & -> & _)]).
+    - rewrite !exec_list_cons. cbn [M_A2A.exec].
+      destruct (eval rho e) as [w|]; auto. apply IH; auto.
+      rewrite upd_keep; auto. simpl in F1. congruence.
+    - rewrite !exec_list_cons. cbn [M_A2A.exec M_A2A.eval]. rewrite X, T.
+      destruct (eval rho e) as [w|]; auto. apply IH; auto.
+      rewrite upd_keep; auto. simpl in F1. congruence.
+  Qed.
+
+  (* the test is false: the wrapped body changes no visible name *)
+  Lemma WB_false t vc l bl : Forall2 (WB t) l bl -> truthy vc = false ->
+    Forall (fun b => target_of b <> Some t) l ->
+    forall rho o', rho t = Some vc -> exec_list bl rho = Some o' ->
+    snd o' = None /\ (forall z, visible z = true -> fst o' z = rho z) /\ fst o' t = Some vc.
+  Proof.
+    induction 1 as [|b wb l bl Hb Hl IH]; intros T F rho o' X H.
+    - inversion H; subst. simpl. auto.
+    - inversion F as [|? ? F1 F2]; subst. destruct Hb as (y & e & o & -> & -> & Vo).
+      rewrite exec_list_cons in H. cbn [M_A2A.exec M_A2A.eval] in H. rewrite X, T in H.
+      destruct (rho o) as [u|] eqn:Ro; try discriminate.
+      assert (Nt : y <> t) by (simpl in F1; congruence).
+      destruct (IH T F2 (upd rho y u) o') as (S1 & S2 & S3); auto.
+      { rewrite upd_keep; auto. }
+      split; auto. split; auto.
+      intros z Vz. rewrite (S2 z Vz). unfold upd. destruct (String.eqb y z) eqn:E; auto.
+      apply String.eqb_eq in E. subst z. rewrite (Vo Vz) in Ro. auto.
+  Qed.
+
+  (* the test is true: the wrapped orelse changes no visible name *)
+  Lemma WE_true t vc l ol : Forall2 (WE t) l ol -> truthy vc = true ->
+    Forall (fun b => target_of b <> Some t) l ->
+    forall rho o', rho t = Some vc -> exec_list ol rho = Some o' ->
+    snd o' = None /\ (forall z, visible z = true -> fst o' z = rho z).
+  Proof.
+    induction 1 as [|b wb l ol Hb Hl IH]; intros T F rho o' X H.
+    - inversion H; subst. simpl. auto.
+    - inversion F as [|? ? F1 F2]; subst. destruct Hb as (y & e & -> & [[-> Vy]|(o & -> & Vo)]).
+      + rewrite exec_list_cons in H. cbn [M_A2A.exec] in H.
+        destruct (eval rho e) as [u|]; try discriminate.
+        assert (Nt : y <> t) by (simpl in F1; congruence).
+        destruct (IH T F2 (upd rho y u) o') as (S1 & S2); auto.
+        { rewrite upd_keep; auto. }
+        split; auto. intros z Vz. rewrite (S2 z Vz). unfold upd. destruct (String.eqb y z) eqn:E; auto.
+        apply String.eqb_eq in E. subst z. congruence.
+      + rewrite exec_list_cons in H. cbn [M_A2A.exec M_A2A.eval] in H. rewrite X, T in H.
+        destruct (rho o) as [u|] eqn:Ro; try discriminate.
+        assert (Nt : y <> t) by (simpl in F1; congruence).
+        destruct (IH T F2 (upd rho y u) o') as (S1 & S2); auto.
+        { rewrite upd_keep; auto. }
+        split; auto. intros z Vz. rewrite (S2 z Vz). unfold upd. destruct (String.eqb y z) eqn:E; auto.
+        apply String.eqb_eq in E. subst z. rewrite (Vo Vz) in Ro. auto.
+  Qed.
+
+  (* an assignment list does not touch a name that is none of its targets *)
+  Lemma exec_keeps t l : Forall (fun b => target_of b <> Some t) l ->
+    Forall (fun b => exists lo hi, stmt_shape lo hi b) l ->
+    forall rho rho1 r, exec_list l rho = Some (rho1, r) -> rho1 t = rho t.
+  Proof.
+    induction 1 as [|b l Hb Hl IH]; intros S rho rho1 r H.
+    - inversion H; subst; auto.
+    - inversion S; subst. rewrite exec_list_cons in H.
+      destruct (exec b rho) as [[r2 [v|]]|] eqn:Eb; try discriminate.
+      + inversion H; subst. destruct b as [[y|]| | | | |]; simpl in Eb; destruct H2 as (lo & hi & Sh); simpl in Sh; try contradiction.
+        * destruct (eval rho e); discriminate.
+        * destruct (eval rho e); inversion Eb; subst; auto.
+        * destruct e as [e|]; [|discriminate]. destruct (is_call "print" e).
+          -- destruct (all_some _); discriminate.
+          -- destruct (eval rho e); discriminate.
+      + rewrite (IH H3 _ _ _ H).
+        destruct b as [[y|]| | | | |]; simpl in Eb; destruct H2 as (lo & hi & Sh); simpl in Sh; try contradiction.
+        * destruct (eval rho e); inversion Eb; subst. apply upd_keep. simpl in Hb. congruence.
+        * destruct (eval rho e); discriminate.
+        * destruct e as [e|]; [|inversion Eb; auto]. destruct (is_call "print" e).
+          -- destruct (all_some _); inversion Eb; auto.
+          -- destruct (eval rho e); inversion Eb; auto.
+  Qed.
+
+  Lemma shape_any lo hi l : shape lo hi l -> Forall (fun b => exists lo hi, stmt_shape lo hi b) l.
+  Proof. induction 1; constructor; eauto. Qed.
+End Rw.
+
+Section RwMain.
+  Variable ext : string -> list val -> option val.
+  Notation eval := (eval ext).
+  Notation exec := (exec ext).
+  Notation exec_list := (exec_list ext).
+  Notation iter_vals := (iter_vals ext).
+
+  Definition rw_post (st : rstate) (l : list stmt) (st' : rstate) (f : env -> outcome) : Prop :=
+    (uq st <= uq st')%N /\ shape (uq st) (uq st') l /\ forallb (gstmt anyn []) l = true /\
+    bsim visible f (exec_list l).
+
+  Definition rw_spec (n : nat) : Prop :=
+    forall s st l st', gstmt visible [] s = true -> notup s = true -> rw_stmt n st s = Ok (l, st') ->
+                       rw_post st l st' (exec s).
+  Definition rw_list_spec (n : nat) : Prop :=
+    forall b st l st', forallb (gstmt visible []) b = true -> forallb notup b = true ->
+                       rw_list_with (rw_stmt n) st b = Ok (l, st') -> rw_post st l st' (exec_list b).
+
+  Lemma rw_list_of_spec n : rw_spec n -> rw_list_spec n.
+  Proof.
+    intros IH b. induction b as [|s r IHb]; intros st l st' G N H; simpl in H.
+    - inversion H; subst. split; [apply N.le_refl|]. split; [constructor|]. split; [reflexivity|].
+      exact (bsim_nil visible).
+    - simpl in G, N. apply andb_true_iff in G; destruct G as [Gs Gr]. apply andb_true_iff in N; destruct N as [Ns Nr].
+      inv_bind H. destruct a as [l1 st1]. inv_bind H. destruct a as [l2 st2]. inversion H; subst.
+      destruct (IH _ _ _ _ Gs Ns Ha) as (U1 & S1 & G1 & B1).
+      destruct (IHb _ _ _ Gr Nr Ha0) as (U2 & S2 & G2 & B2).
+      split; [lia|]. split; [|split].
+      + apply shape_app; [apply (shape_mono (uq st) (uq st1)) | apply (shape_mono (uq st1) (uq st'))]; auto; lia.
+      + now rewrite forallb_app, G1, G2.
+      + apply bsim_list_cons; auto.
+  Qed.
+
+  (* ---------- the iterator of a guarded loop: constants, the same in every environment ---------- *)
+  Lemma const_list_inv st l :
+    forallb valued_const l = true ->
+    exists cs, l = map EConst cs /\ forallb valued cs = true /\ mapM (rw_exp st) l = Ok l.
+  Proof.
+    induction l as [|a r IH]; intro H; simpl in H.
+    - exists []. auto.
+    - apply andb_true_iff in H; destruct H as [Ha Hr]. destruct (IH Hr) as (cs & -> & V & M).
+      destruct a; simpl in Ha; try discriminate. exists (c :: cs). split; auto. split.
+      + simpl. now rewrite Ha, V.
+      + simpl. simpl in M. rewrite M. reflexivity.
+  Qed.
+
+  Lemma const_vals cs : forallb valued cs = true ->
+    exists vs, Forall2 (fun c v => val_of_cst c = Some v) cs vs /\
+               forall rho, all_some (map (eval rho) (map EConst cs)) = Some vs.
+  Proof.
+    induction cs as [|c r IH]; intro H; simpl in H.
+    - exists []. split; auto.
+    - apply andb_true_iff in H; destruct H as [Hc Hr]. destruct (IH Hr) as (vs & F & E).
+      destruct (valued_val _ Hc) as (v & Hv). exists (v :: vs). split; auto.
+      intro rho. simpl. rewrite Hv. simpl in E. rewrite E. reflexivity.
+  Qed.
+
+  Lemma range_args_vals args zs :
+    all_some (map (fun a => match a with
+                            | EConst c => match val_of_cst c with Some v => as_int v | None => None end
+                            | _ => None end) args) = Some zs ->
+    exists vs, (forall rho, all_some (map (eval rho) args) = Some vs) /\ all_some (map as_int vs) = Some zs.
+  Proof.
+    revert zs; induction args as [|a r IH]; intros zs H; simpl in H.
+    - inversion H. exists []. auto.
+    - destruct a; try discriminate. destruct (val_of_cst c) as [v|] eqn:Hv; try discriminate.
+      destruct (as_int v) as [z|] eqn:Hz; try discriminate.
+      destruct (all_some (map _ r)) as [zs'|] eqn:Hr; try discriminate. simpl in H. inversion H; subst.
+      destruct (IH _ eq_refl) as (vs & E & A). exists (v :: vs). split.
+      + intro rho. simpl. rewrite Hv, E. reflexivity.
+      + simpl. rewrite Hz, A. reflexivity.
+  Qed.
+
+  Lemma rw_iter_sound st it elems :
+    (match is_call "range" it with
+     | Some args => forallb (gexp visible []) args
+     | None => const_iter it end) = true ->
+    rw_iter st it = Ok elems ->
+    exists cs vs, elems = map EConst cs /\ forallb valued cs = true /\
+                  Forall2 (fun c v => val_of_cst c = Some v) cs vs /\
+                  forall rho, iter_vals rho it = Some vs.
+  Proof.
+    intros G H. unfold rw_iter in H. destruct (is_call "range" it) as [args|] eqn:Ci.
+    - apply is_call_some in Ci. subst it. inv_bind H. inv_bind H.
+      destruct (rw_args_sound ext st _ _ G Ha) as (E1 & G1).
+      destruct (fold_args_sound ext visible [] _ _ G1 Ha0) as (E2 & G2).
+      destruct (forallb is_constant a0); try discriminate.
+      destruct (all_some (map _ a0)) as [zs|] eqn:Hz; try discriminate.
+      destruct (range_of zs) as [l|] eqn:Hr; try discriminate.
+      destruct (2000 <? List.length l)%nat; inversion H; subst.
+      destruct (range_args_vals _ _ Hz) as (vs & Ev & Az).
+      exists (map CInt l), (map VInt l). split; [now rewrite map_map|]. split; [|split].
+      + clear. induction l; simpl; auto.
+      + clear. induction l; simpl; constructor; auto.
+      + intro rho. rewrite iter_vals_range, <- E1, <- E2, Ev, Az, Hr. reflexivity.
+    - inv_bind H.
+      assert (K : exists l, (it = ETuple l \/ it = EList l) /\ forallb valued_const l = true).
+      { destruct it; simpl in G; try discriminate; eauto. }
+      destruct K as (l & Eit & Vl). destruct (const_list_inv st l Vl) as (cs & El & Vc & M).
+      assert (Ea : a = ETuple l).
+      { destruct Eit; subst it; cbn [rw_exp] in Ha; rewrite M in Ha; simpl in Ha; now inversion Ha. }
+      subst a. simpl in H. inversion H; subst elems.
+      destruct (const_vals cs Vc) as (vs & F & Ev). exists cs, vs. split; auto. split; auto. split; auto.
+      intro rho. rewrite iter_vals_other by auto.
+      assert (Ee : eval rho it = option_map VTup (all_some (map (eval rho) l))).
+      { destruct Eit; subst it; reflexivity. }
+      rewrite Ee, El, Ev. reflexivity.
+  Qed.
+
+  (* ---------- unrolling ---------- *)
+  Lemma rolls_sound n (IH : rw_spec n) x b :
+    visible x = true -> forallb (gstmt visible [x]) b = true -> forallb notup b = true ->
+    forall cs vs st l st',
+      forallb valued cs = true -> Forall2 (fun c v => val_of_cst c = Some v) cs vs ->
+      rolls_with (rw_stmt n) x b (map EConst cs) st = Ok (l, st') ->
+      rw_post st l st' (loop_with (exec_list b) x vs).
+  Proof.
+    intros Vx Gb Nb. induction cs as [|c cs IHc]; intros vs st l st' Vc F H.
+    - inversion F; subst. simpl in H. inversion H; subst.
+      split; [apply N.le_refl|]. split; [constructor|]. split; [reflexivity|]. exact (bsim_nil visible).
+    - inversion F as [|? w ? vs' Hw F']; subst. simpl in Vc. apply andb_true_iff in Vc; destruct Vc as [Vc1 Vc2].
+      cbn [map rolls_with loop_val] in H.
+      inv_bind H. destruct a as [l0 st2]. inv_bind H. inv_bind H. destruct a0 as [l1 st3].
+      inv_bind H. destruct a0 as [l2 st4]. inversion H; subst.
+      assert (G0 : gstmt visible [] (SAssign (TName x) (EConst c)) = true) by (simpl; now rewrite Vx, Vc1).
+      destruct (IH _ _ _ _ G0 eq_refl Ha) as (U0 & S0 & A0 & B0).
+      destruct (subst_body_guard visible x c Vc1 false [] b a Nb Gb Ha0) as (Gb' & Nb').
+      destruct (rw_list_of_spec n IH _ _ _ _ Gb' Nb' Ha1) as (U1 & S1 & A1 & B1).
+      destruct (IHc _ _ _ _ Vc2 F' Ha2) as (U2 & S2 & A2 & B2).
+      assert (Us : uq (set_constant st x (EConst c)) = uq st).
+      { unfold set_constant. destruct (has_key (tys st) x); reflexivity. }
+      rewrite Us in *.
+      split; [lia|]. split; [|split].
+      + apply shape_app; [|apply shape_app].
+        * apply (shape_mono (uq st) (uq st2)); auto; lia.
+        * apply (shape_mono (uq st2) (uq st3)); auto; lia.
+        * apply (shape_mono (uq st3) (uq st')); auto; lia.
+      + now rewrite !forallb_app, A0, A1, A2.
+      + eapply bsim_ext;
+          [| |apply (bsim_seq visible _ _ _ _ (bsim_seq visible _ _ _ _ B0 B1) B2)].
+        * intro rho. unfold seq. cbn [M_A2A.exec M_A2A.eval loop_with]. rewrite Hw.
+          rewrite (subst_body_sound ext x c w Hw false b a (upd rho x w) Nb Ha0).
+          -- reflexivity.
+          -- unfold upd. now rewrite String.eqb_refl.
+        * intro rho. rewrite seq_assoc. unfold seq. rewrite !exec_list_app.
+          destruct (exec_list l0 rho) as [[r1 [v1|]]|]; auto. now rewrite exec_list_app.
+  Qed.
+
+  (* ---------- the statement pass ---------- *)
+  Lemma rw_stmt_sound n : rw_spec n.
+  Proof.
+    induction n as [|n IHn]; intros s st l st' G N H; [discriminate|].
+    pose proof (rw_list_of_spec n IHn) as IHl.
+    destruct s as [[x|tl] e|x op e|c b o|x it b|e|[e|]]; cbn [rw_stmt] in H; cbn [gstmt] in G.
+    - (* x = e *)
+      apply andb_true_iff in G; destruct G as [Gx Ge].
+      destruct (rw_assign_sound ext _ _ _ _ _ Gx Ge H) as (U & S & A & B).
+      split; [lia|]. split; auto.
+    - discriminate.
+    - (* x op= e *)
+      apply andb_true_iff in G; destruct G as [G Ge]. apply andb_true_iff in G; destruct G as [Gx Gop].
+      inv_bind H. inversion H; subst.
+      assert (G1 : gexp visible [] (EBinOp op (EName x) e) = true) by (simpl; now rewrite Gop, Gx, Ge).
+      destruct (rw_exp_sound ext st' _ _ G1 Ha) as (E & G2).
+      split; [apply N.le_refl|]. split; [|split].
+      + constructor; [apply tmp_shape|constructor; [apply one_shape; auto|constructor]].
+      + simpl. now rewrite (gexp_mono visible anyn [] a (fun _ _ => eq_refl) G2).
+      + eapply bsim_ext; [| |apply (bsim_tmp ext x (EBinOp op (EName x) e) a Gx G1 E)]; auto.
+        intro rho. symmetry. apply aug_as_assign.
+    - (* if *)
+      apply andb_true_iff in G; destruct G as [G Go]. apply andb_true_iff in G; destruct G as [Gc Gb].
+      simpl in N. apply andb_true_iff in N; destruct N as [Nb No].
+      inv_bind H. destruct a as [b' st1]. inv_bind H. destruct a as [o' st2].
+      cbv zeta in H. inv_bind H. inv_bind H. inv_bind H. inversion H; subst. clear H.
+      destruct (IHl _ _ _ _ Gb Nb Ha) as (U1 & S1 & A1 & B1).
+      destruct (IHl _ _ _ _ Go No Ha0) as (U2 & S2 & A2 & B2).
+      destruct (rw_exp_sound ext _ _ _ Gc Ha1) as (Ec & Gc').
+      pose proof (wrap_body_WB _ _ _ _ Ha2) as Wb. pose proof (wrap_else_WE _ _ _ _ Ha3) as We.
+      set (u := (uq st2 + 1)%N) in *. set (t := iftarg_name u) in *.
+      assert (Fb : Forall (fun s => target_of s <> Some t) b') by (apply (shape_fresh _ _ _ _ S1); lia).
+      assert (Fo : Forall (fun s => target_of s <> Some t) o') by (apply (shape_fresh _ _ _ _ S2); lia).
+      unfold rw_post. cbn [uq]. split; [unfold u; lia|]. split; [|split].
+      + constructor.
+        * intros _. exists u. split; auto. unfold u; lia.
+        * apply shape_app.
+          -- apply (WB_shape t _ _ _ _ Wb). apply (shape_mono (uq st) (uq st1)); auto; unfold u; lia.
+          -- apply (WE_shape t _ _ _ _ We). apply (shape_mono (uq st1) (uq st2)); auto; unfold u; lia.
+      + cbn [forallb gstmt anyn andb]. rewrite (gexp_mono visible anyn [] a (fun _ _ => eq_refl) Gc').
+        rewrite forallb_app, (WB_guard t _ _ Wb A1), (WE_guard t _ _ We A2). reflexivity.
+      + intros rho rho' out' R H.
+        rewrite exec_list_cons in H. cbn [M_A2A.exec] in H. rewrite Ec in H.
+        rewrite exec_if. rewrite (eval_agree ext visible [] c rho rho' Gc R).
+        destruct (eval rho' c) as [vc|]; try discriminate.
+        set (rho1 := upd rho' t vc) in *.
+        assert (X1 : rho1 t = Some vc) by (unfold rho1, upd; now rewrite String.eqb_refl).
+        assert (R1 : Ragree visible rho rho1).
+        { apply Ragree_upd_r; auto. apply iftarg_invisible. }
+        rewrite exec_list_app in H.
+        destruct (truthy vc) eqn:T.
+        * rewrite (WB_true ext t vc _ _ Wb T Fb rho1 X1) in H.
+          destruct (exec_list b' rho1) as [[r2 [v|]]|] eqn:Eb; try discriminate.
+          -- inversion H; subst. apply (B1 _ _ _ R1 Eb).
+          -- destruct (B1 _ _ _ R1 Eb) as ([r0 w0] & F0 & R0 & Ew). simpl in R0, Ew. subst w0.
+             assert (X2 : r2 t = Some vc).
+             { rewrite (exec_keeps ext t b' Fb (shape_any _ _ _ S1) _ _ _ Eb). exact X1. }
+             destruct (WE_true ext t vc _ _ We T Fo r2 out' X2 H) as (S3 & S4).
+             exists (r0, None). split; auto. split; simpl; auto.
+             intros z Vz. rewrite (S4 z Vz). auto.
+        * destruct (exec_list a0 rho1) as [[r2 [v|]]|] eqn:Eb; try discriminate.
+          -- destruct (WB_false ext t vc _ _ Wb T Fb rho1 _ X1 Eb) as (S3 & _). discriminate.
+          -- destruct (WB_false ext t vc _ _ Wb T Fb rho1 _ X1 Eb) as (_ & S4 & X2). simpl in S4, X2.
+             rewrite (WE_false ext t vc _ _ We T Fo r2 X2) in H.
+             apply (B2 rho r2 out'); auto.
+             intros z Vz. rewrite (S4 z Vz). auto.
+    - (* for *)
+      apply andb_true_iff in G; destruct G as [G Gb]. apply andb_true_iff in G; destruct G as [Gx Gi].
+      simpl in N. inv_bind H.
+      destruct (rw_iter_sound _ _ _ Gi Ha) as (cs & vs & -> & Vc & F & Ev).
+      destruct (rolls_sound n IHn x b Gx Gb N cs vs _ _ _ Vc F H) as (U & S & A & B).
+      split; auto. split; auto. split; auto.
+      eapply bsim_ext; [| |exact B]; auto.
+      intro rho. rewrite exec_for, Ev. reflexivity.
+    - (* return *)
+      inv_bind H. inversion H; subst. destruct (rw_exp_sound ext st' _ _ G Ha) as (E & G').
+      split; [apply N.le_refl|]. split; [|split].
+      + constructor; [exact I|constructor].
+      + simpl. now rewrite (gexp_mono visible anyn [] a (fun _ _ => eq_refl) G').
+      + apply bsim_single. apply (bsim_return ext visible []); auto.
+    - (* expression statement *)
+      rewrite (gexp_not_call _ _ _ "print" G) in H by reflexivity.
+      inv_bind H. inversion H; subst. destruct (rw_exp_sound ext st' _ _ G Ha) as (E & G').
+      split; [apply N.le_refl|]. split; [|split].
+      + constructor; [exact I|constructor].
+      + simpl. now rewrite (gexp_mono visible anyn [] a (fun _ _ => eq_refl) G').
+      + apply bsim_single. apply (bsim_expr ext visible []); auto.
+    - inversion H; subst.
+      split; [apply N.le_refl|]. split; [|split].
+      + constructor; [exact I|constructor].
+      + reflexivity.
+      + apply bsim_single. intros rho rho' o' R H'. simpl in *. inversion H'; subst.
+        exists (rho, None). split; auto. split; auto.
+  Qed.
+
+  Lemma rw_list_sound b st l st' :
+    forallb (gstmt visible []) b = true -> forallb notup b = true ->
+    rw_list rw_fuel st b = Ok (l, st') -> rw_post st l st' (exec_list b).
+  Proof. apply (rw_list_of_spec rw_fuel (rw_stmt_sound rw_fuel)). Qed.
+End RwMain.
+
+(* ------------------------------------------------------------------ *)
+(* normal form of whatever the rewriter returns (no guard)             *)
+(* ------------------------------------------------------------------ *)
+Lemma rw_assign_normal st x e l st' : rw_assign st x e = Ok (l, st') -> forallb normal_stmt l = true.
+Proof.
+  unfold rw_assign. intro H. inv_bind H. destruct a as [st1 e1]. inv_bind H.
+  destruct (_ && _); try discriminate. destruct (_ && _); inversion H; subst; reflexivity.
+Qed.
+
+Lemma wrap_body_normal st t l bl : mapM (wrap_body st t) l = Ok bl -> forallb normal_stmt bl = true.
+Proof.
+  revert bl; induction l as [|b l IH]; intros bl H; simpl in H.
+  - inversion H; auto.
+  - inv_bind H. inv_bind H. inversion H; subst. simpl. rewrite (IH _ Ha0).
+    destruct b as [[y|]| | | | |]; simpl in Ha; try discriminate. inversion Ha; subst. reflexivity.
+Qed.
+
+Lemma wrap_else_normal st t l ol : mapM (wrap_else st t) l = Ok ol -> forallb normal_stmt ol = true.
+Proof.
+  revert ol; induction l as [|b l IH]; intros ol H; simpl in H.
+  - inversion H; auto.
+  - inv_bind H. inv_bind H. inversion H; subst. simpl. rewrite (IH _ Ha0).
+    destruct b as [[y|]| | | | |]; simpl in Ha; try discriminate.
+    destruct (_ && _); [|destruct (is_iftarg y)]; inversion Ha; subst; reflexivity.
+Qed.
+
+Lemma rw_list_normal_of (rw : rstate -> stmt -> res (list stmt * rstate)) :
+  (forall s st l st', rw st s = Ok (l, st') -> forallb normal_stmt l = true) ->
+  forall b st l st', rw_list_with rw st b = Ok (l, st') -> forallb normal_stmt l = true.
+Proof.
+  intros IH b. induction b as [|s r IHb]; intros st l st' H; simpl in H.
+  - inversion H; auto.
+  - inv_bind H. destruct a as [l1 st1]. inv_bind H. destruct a as [l2 st2]. inversion H; subst.
+    rewrite forallb_app, (IH _ _ _ _ Ha), (IHb _ _ _ Ha0). reflexivity.
+Qed.
+
+Lemma rolls_normal_of (rw : rstate -> stmt -> res (list stmt * rstate)) x b :
+  (forall s st l st', rw st s = Ok (l, st') -> forallb normal_stmt l = true) ->
+  forall elems st l st', rolls_with rw x b elems st = Ok (l, st') -> forallb normal_stmt l = true.
+Proof.
+  intros IH elems. induction elems as [|i r IHr]; intros st l st' H; simpl in H.
+  - inversion H; auto.
+  - inv_bind H. destruct a as [l0 st2]. inv_bind H. inv_bind H. destruct a0 as [l1 st3].
+    inv_bind H. destruct a0 as [l2 st4]. inversion H; subst.
+    rewrite !forallb_app, (IH _ _ _ _ Ha), (rw_list_normal_of rw IH _ _ _ _ Ha1), (IHr _ _ _ Ha2). reflexivity.
+Qed.
+
+Lemma rw_stmt_normal n : forall s st l st', rw_stmt n st s = Ok (l, st') -> forallb normal_stmt l = true.
+Proof.
+  induction n as [|n IHn]; intros s st l st' H; [discriminate|].
+  destruct s as [[x|tl] e|x op e|c b o|x it b|e|[e|]]; cbn [rw_stmt] in H.
+  - apply (rw_assign_normal _ _ _ _ _ H).
+  - discriminate.
+  - inv_bind H. inversion H; subst. reflexivity.
+  - inv_bind H. destruct a as [b' st1]. inv_bind H. destruct a as [o' st2].
+    cbv zeta in H. inv_bind H. inv_bind H. inv_bind H. inversion H; subst.
+    simpl. now rewrite forallb_app, (wrap_body_normal _ _ _ _ Ha2), (wrap_else_normal _ _ _ _ Ha3).
+  - inv_bind H. apply (rolls_normal_of _ _ _ IHn _ _ _ _ H).
+  - inv_bind H. inversion H; subst. reflexivity.
+  - destruct (is_call "print" e).
+    + inv_bind H. inversion H; subst. reflexivity.
+    + inv_bind H. inversion H; subst. reflexivity.
+  - inversion H; subst. reflexivity.
+Qed.
+
+Lemma fold_normal l : forall l', forallb normal_stmt l = true -> fold_list l = Ok l' -> forallb normal_stmt l' = true.
+Proof.
+  unfold fold_list. induction l as [|s r IH]; intros l' N H; simpl in H.
+  - inversion H; auto.
+  - simpl in N. apply andb_true_iff in N; destruct N as [Ns Nr].
+    inv_bind H. inv_bind H. inversion H; subst. rewrite forallb_app, (IH _ Nr Ha0), andb_true_r.
+    destruct s as [[y|]| | | | |[e|]]; simpl in Ns; try discriminate; cbn [fold_stmt fold_target] in Ha.
+    + inv_bind Ha. inv_bind Ha. inversion Ha; subst. inversion Ha1; subst. reflexivity.
+    + inv_bind Ha. inversion Ha; subst. reflexivity.
+    + inv_bind Ha. inversion Ha; subst. reflexivity.
+    + inversion Ha; subst. reflexivity.
+Qed.
+
+Theorem a2a_normal_form : forall f b', a2a f = Ok b' -> normal_form b' = true.
+Proof.
+  intros f b' H. unfold a2a in H. inv_bind H. inv_bind H. inv_bind H.
+  unfold rw_fun in Ha1. inv_bind Ha1. inv_bind Ha1. destruct a3 as [b3 st3]. inv_bind Ha1. inversion Ha1; subst.
+  apply (fold_normal _ _ (rw_list_normal_of _ (rw_stmt_normal rw_fuel) _ _ _ _ Ha3) H).
+Qed.
+
+(* ------------------------------------------------------------------ *)
+(* the four passes composed                                            *)
+(* ------------------------------------------------------------------ *)
+Lemma Ragree_refl P rho : Ragree P rho rho.
+Proof. intros x _. reflexivity. Qed.
+
+Theorem a2a_backward : forall ext f b',
+  a2a_guard f = true -> a2a f = Ok b' ->
+  forall rho v, run ext b' rho = Some v -> run ext (f_body f) rho = Some v.
+Proof.
+  intros ext f b' G H rho v R. unfold a2a_guard in G. unfold a2a in H.
+  inv_bind H. inv_bind H. inv_bind H.
+  unfold rw_fun in Ha1. inv_bind Ha1. inv_bind Ha1. destruct a3 as [b3 st3]. inv_bind Ha1. inversion Ha1; subst.
+  destruct (fold_list_sound ext user_name [] _ _ G Ha) as (E1 & G1).
+  destruct (multi_list_sound ext [] _ _ G1 Ha0) as (G2 & B2).
+  pose proof (multi_list_notup _ _ Ha0) as N2.
+  destruct (rw_list_sound ext _ _ _ _ G2 N2 Ha3) as (_ & _ & G3 & B3).
+  destruct (fold_list_sound ext anyn [] _ _ G3 H) as (E4 & _).
+  unfold run in *. rewrite E4 in R.
+  destruct (exec_list ext a1 rho) as [[r3 [v3|]]|] eqn:X3; try discriminate. inversion R; subst v3.
+  destruct (B3 _ _ _ (Ragree_refl visible rho) X3) as ([r2 w2] & X2 & _ & Ew). simpl in Ew. subst w2.
+  destruct (B2 _ _ _ (Ragree_refl user_name rho) X2) as ([r1 w1] & X1 & _ & Ew). simpl in Ew. subst w1.
+  rewrite <- E1, X1. reflexivity.
+Qed.
+
+(* ------------------------------------------------------------------ *)
+(* the unguarded statement is false of the faithful model              *)
+(* ------------------------------------------------------------------ *)
+Definition no_ext : string -> list val -> option val := fun _ _ => None.
+Definition ann_bool : option exp := Some (EName "bool").
+Definition ann_tuple (l : list exp) : option exp := Some (ESubscript (EName "Tuple") (ETuple l)).
+Definition ann_qint2 : exp := ESubscript (EName "Qint") (EConst (CInt 2)).
+Definition ci (z : Z) : exp := EConst (CInt z).
+
+(* def f(t: Tuple[Tuple[bool, bool], bool]) -> bool:  t, a = t;  return a
+   ReplaceMultiTargetAssign emits  t = t[0]; a = t[1] : the second reads the NEW t *)
+Definition wit_multi : fundef :=
+  mkfun [("t", ann_tuple [ESubscript (EName "Tuple") (ETuple [EName "bool"; EName "bool"]); EName "bool"])] ann_bool
+        [SAssign (TTuple [EName "t"; EName "a"]) (EName "t"); SReturn (EName "a")].
+Definition wit_multi_env : env := env_of [("t", VTup [VTup [VBool true; VBool false]; VBool true])].
+
+(* def f(a: bool, b: bool, u: Tuple[Qint[2], bool]) -> bool:  t = (a, b);  a = not a;  return t[u[0]]
+   visit_Subscript inlines the ELEMENT EXPRESSIONS recorded for t: they are read after a changed *)
+Definition wit_alias : fundef :=
+  mkfun [("a", ann_bool); ("b", ann_bool); ("u", ann_tuple [ann_qint2; EName "bool"])] ann_bool
+        [SAssign (TName "t") (ETuple [EName "a"; EName "b"]);
+         SAssign (TName "a") (EUnOp Not (EName "a"));
+         SReturn (ESubscript (EName "t") (ESubscript (EName "u") (ci 0)))].
+Definition wit_alias_env : env := env_of [("a", VBool true); ("b", VBool false); ("u", VTup [VInt 0; VBool true])].
+
+(* def f(a: bool, b: bool, c: bool, u: ...) -> bool:  t = (a, b);  if c: t = (b, a);  return t[u[0]]
+   Environment.constants is flow-insensitive: the LAST tuple assigned anywhere is inlined *)
+Definition wit_flow : fundef :=
+  mkfun [("a", ann_bool); ("b", ann_bool); ("c", ann_bool); ("u", ann_tuple [ann_qint2; EName "bool"])] ann_bool
+        [SAssign (TName "t") (ETuple [EName "a"; EName "b"]);
+         SIf (EName "c") [SAssign (TName "t") (ETuple [EName "b"; EName "a"])] [];
+         SReturn (ESubscript (EName "t") (ESubscript (EName "u") (ci 0)))].
+Definition wit_flow_env : env :=
+  env_of [("a", VBool true); ("b", VBool false); ("c", VBool false); ("u", VTup [VInt 0; VBool true])].
+
+(* def f(m: Qmatrix[bool, 2, 3]) -> bool:  r = False;  for x in m[0]: r = r ^ x;  return r
+   __unroll_arg takes the length of a row from the OUTER tuple: 2 of the 3 elements are visited *)
+Definition ann_row3 : exp := ESubscript (EName "Tuple") (ETuple [EName "bool"; EName "bool"; EName "bool"]).
+Definition wit_matrix : fundef :=
+  mkfun [("m", ann_tuple [ann_row3; ann_row3])] ann_bool
+        [SAssign (TName "r") (EConst (CBool false));
+         SFor "x" (ESubscript (EName "m") (ci 0)) [SAssign (TName "r") (EBinOp BitXor (EName "r") (EName "x"))];
+         SReturn (EName "r")].
+Definition wit_matrix_env : env :=
+  env_of [("m", VTup [VTup [VBool false; VBool false; VBool true]; VTup [VBool false; VBool false; VBool false]])].
+
+(* def f(a: Tuple[bool, bool]) -> bool:  s = False;  for x in a: a = (s, x); s = s ^ x;  return s
+   the loop variable is replaced by the EXPRESSION a[i], read after a was re-bound *)
+Definition wit_loop : fundef :=
+  mkfun [("a", ann_tuple [EName "bool"; EName "bool"])] ann_bool
+        [SAssign (TName "s") (EConst (CBool false));
+         SFor "x" (EName "a") [SAssign (TName "a") (ETuple [EName "s"; EName "x"]);
+                               SAssign (TName "s") (EBinOp BitXor (EName "s") (EName "x"))];
+         SReturn (EName "s")].
+Definition wit_loop_env : env := env_of [("a", VTup [VBool true; VBool true])].
+
+Definition differ (f : fundef) (rho : env) : Prop :=
+  exists b' v v', a2a f = Ok b' /\ run no_ext b' rho = Some v /\ run no_ext (f_body f) rho = Some v' /\
+                  val_eqb v v' = false.
+
+Lemma wit_multi_differ : differ wit_multi wit_multi_env.
+Proof. unfold differ. eexists. exists (VBool false), (VBool true). repeat split; vm_compute; reflexivity. Qed.
+Lemma wit_alias_differ : differ wit_alias wit_alias_env.
+Proof. unfold differ. eexists. exists (VBool false), (VBool true). repeat split; vm_compute; reflexivity. Qed.
+Lemma wit_flow_differ : differ wit_flow wit_flow_env.
+Proof. unfold differ. eexists. exists (VBool false), (VBool true). repeat split; vm_compute; reflexivity. Qed.
+Lemma wit_matrix_differ : differ wit_matrix wit_matrix_env.
+Proof. unfold differ. eexists. exists (VBool false), (VBool true). repeat split; vm_compute; reflexivity. Qed.
+Lemma wit_loop_differ : differ wit_loop wit_loop_env.
+Proof. unfold differ. eexists. exists (VBool true), (VBool false). repeat split; vm_compute; reflexivity. Qed.
+
+(* "the rewriter preserves the returned value of every program it accepts" is FALSE *)
+Theorem a2a_preserves_refuted :
+  exists f rho b' v v', a2a f = Ok b' /\ run no_ext b' rho = Some v /\
+                        run no_ext (f_body f) rho = Some v' /\ v <> v'.
+Proof.
+  exists wit_alias, wit_alias_env. eexists. exists (VBool false), (VBool true).
+  repeat split; try (vm_compute; reflexivity). discriminate.
+Qed.
+
+(* inside the guard the converse direction fails: a name assigned in one branch only.
+   def f(c: bool) -> bool:  if c: x = True;  return c      (c = False) *)
+Definition wit_undef : fundef :=
+  mkfun [("c", ann_bool)] ann_bool
+        [SIf (EName "c") [SAssign (TName "x") (EConst (CBool true))] []; SReturn (EName "c")].
+Theorem a2a_forward_refuted :
+  exists f rho b' v, a2a_guard f = true /\ a2a f = Ok b' /\
+                     run no_ext (f_body f) rho = Some v /\ run no_ext b' rho = None.
+Proof.
+  exists wit_undef, (env_of [("c", VBool false)]). eexists. exists (VBool false).
+  repeat split; vm_compute; reflexivity.
+Qed.
